@@ -2,13 +2,22 @@
 
 Decides "every implemented rule is applied at every syntactic position it governs" plus several finite tables;
 does not decide the value-level exactness of each rule's predicate.
+
+How the rules stay indifferent to behaviour-preserving refactorings (shared with c04/c05 through this module):
+* anchors: by name, else by role (`role_fn`: signature types, diagnostic constructed, callers); parameters by type/position;
+  AST / type-system fields by name, and a name that no longer exists is UNDECIDED (`anchors_present`), never a violation;
+* tables (which kinds take which action) are read by abstract evaluation over kinds (`KindEval`): any spelling of the control flow
+  (`match`, `if let`, `let else`, `matches!`, early return, labelled block, helper function, loop or iterator adaptor) gives the
+  same paths, and a row is VIOLATED only if all its paths agree on the wrong action;
+* "derives from" questions use provenance that also follows `push`/`extend`/`insert` (`MProv`), helpers (`deep_atoms`, `inlined`)
+  and, across functions, the callers' arguments and the fillers of checker-internal structs (`origin`);
+* a diagnostic is followed to where it ends up (`diag_flow`): VIOLATED only if it is positively discarded.
 """
 import harness
-from facts import (norm, call_name, short, subnodes, lit_value, matches_on, arm_variants, field_reads, peel_ty,
-                   lit_table, matches_on_type, str_lits_in)
+from facts import norm, call_name, short, subnodes, matches_on, arm_variants, peel_ty, str_lits_in
 from prov import Prov, has_field, has_call
-from templates import (stateful_guards, memo_key_gaps, constant_params, field_coverage, enclosing_contexts, variant_table, arm_value, recursion_discipline,
-                       LOSSY_OR_REORDERING)
+from templates import (stateful_guards, memo_key_gaps, constant_params, field_coverage, enclosing_contexts, variant_table, arm_value,
+                       inlined, scope_fns)
 
 CK = "nitrogql_checker::"
 A = "nitrogql_ast::"
@@ -51,32 +60,1096 @@ def checker_scope(P):
     return sorted(p for p in reach if not P.fns[p].derived)
 
 
+# ------------------------------------------------------------------------------------------------ anchors by role
+# Every anchor is looked up by its name first (P.fn also follows a function moved to another module).  When the name is gone —
+# the function was renamed or became a method of a new type — the anchor is the unique function that plays the same *role*:
+# its signature types, the diagnostic it constructs, what it calls.  No role or several candidates -> AnchorMissing -> UNDECIDED.
+T_SELSET = A + "selection_set::SelectionSet"
+T_TYPEDEF = "graphql_type_system::definitions::TypeDefinition<"
+T_TYPE = "graphql_type_system::type::Type<"
+T_VALUE = A + "value::Value"
+
+
+def _sig(f):
+    return [(t or "").replace(" ", "") for t in f.sig_inputs]
+
+
+def _takes(f, needle, direct=True):
+    """number of parameters whose type mentions `needle` (direct: as `&T`/`T`/`Option<&T>`, not as the value type of a map)"""
+    n = 0
+    for t in _sig(f):
+        if needle not in t:
+            continue
+        if direct and ("HashMap<" in t or "BTreeMap<" in t or "Vec<" in t or t.startswith("&[")):
+            continue
+        n += 1
+    return n
+
+
+def constructs(f, variant):
+    """does `f` build the diagnostic `variant` (struct-like or unit-like variant of CheckErrorMessage)?"""
+    for x in f.walk():
+        if x.get("k") == "Struct" and "rest" not in x and norm(x.get("variant", "")) == ERR + "::" + variant:
+            return True
+        if x.get("k") == "Path" and norm(x.get("ctor_of") or "") == ERR + "::" + variant and "Ctor" in x.get("dk", ""):
+            return True
+    return False
+
+
+ROLES = {
+    # name suffix -> role predicate
+    CK + "operation_checker::check_selection_set":
+        lambda P, f: _takes(f, T_SELSET) == 1 and _takes(f, T_TYPEDEF) == 1 and bool(_selection_matches(f)),
+    CK + "operation_checker::check_selection_field":
+        lambda P, f: _takes(f, A + "selection_set::Field") == 1 and f.crate == "nitrogql_checker",
+    CK + "operation_checker::check_fragment_spread":
+        lambda P, f: _takes(f, A + "selection_set::FragmentSpread") == 1 and f.crate == "nitrogql_checker",
+    CK + "operation_checker::check_inline_fragment":
+        lambda P, f: _takes(f, A + "selection_set::InlineFragment") == 1 and f.crate == "nitrogql_checker",
+    CK + "operation_checker::check_fragment_spread_core":
+        lambda P, f: _takes(f, T_SELSET) == 1 and _takes(f, T_TYPEDEF) == 2,
+    CK + "operation_checker::check_fragment_definition":
+        lambda P, f: _takes(f, A + "operation::FragmentDefinition") == 1 and f.crate == "nitrogql_checker" and f.path in P.reachable([entry(P)]),
+    CK + "operation_checker::check_operation":
+        lambda P, f: _takes(f, A + "operation::OperationDefinition") == 1 and f.crate == "nitrogql_checker" and f.path in P.reachable([entry(P)]),
+    CK + "operation_checker::check_variables_definition":
+        lambda P, f: any(t == "&" + A + "variable::VariablesDefinition" for t in _sig(f)) and f.crate == "nitrogql_checker"
+        and f.path.startswith(CK + "operation_checker"),
+    CK + "common::check_directives": lambda P, f: constructs(f, "UnknownDirective"),
+    CK + "common::check_arguments": lambda P, f: constructs(f, "RequiredArgumentNotSpecified"),
+    CK + "common::check_value":
+        lambda P, f: _takes(f, T_VALUE) == 1 and _takes(f, T_TYPE) == 1 and f.sig_output in ("()", None)
+        and f.path in P.callees_of(role_fn(P, CK + "common::check_arguments"))[0],
+    CK + "common::is_value_compatible_type_def":
+        lambda P, f: _takes(f, T_VALUE) == 1 and _takes(f, T_TYPEDEF) == 1 and f.crate == "nitrogql_checker",
+    CK + "common::check_type_compatibility":
+        lambda P, f: _takes(f, T_TYPE) == 2 and len(f.params) == 2 and f.sig_output == "bool" and f.crate == "nitrogql_checker",
+    CK + "common::get_variable_definition":
+        lambda P, f: "variable::VariableDefinition" in (f.sig_output or "") and _takes(f, A + "variable::Variable") >= 1
+        and f.crate == "nitrogql_checker",
+    "nitrogql_semantics::direct_fields_of_output_type::direct_fields_of_output_type":
+        lambda P, f: f.crate == "nitrogql_semantics" and _takes(f, T_TYPEDEF) == 1 and len(f.params) == 1
+        and (f.sig_output or "").startswith("core::option::Option<") and "definitions::Field<" in (f.sig_output or ""),
+    "nitrogql_semantics::direct_fields_of_output_type::get_typename_meta_field":
+        lambda P, f: f.crate == "nitrogql_semantics" and not f.params and "definitions::Field<" in (f.sig_output or "")
+        and "__typename" in str_lits_in(f.body),
+}
+
+
+def _selection_matches(f):
+    """patterns of `f` that tell the kinds of selection apart"""
+    return [x for x in f.walk() if x.get("k") in ("TupleStruct", "Struct", "PatExpr") and norm(x.get("ctor_of") or x.get("def") or "").startswith(A + "selection_set::Selection::")]
+
+
+def role_fn(P, name):
+    """the anchor `name` (by name, else by role)"""
+    from facts import AnchorMissing
+    try:
+        f = P.fn(name, required=False)
+    except AnchorMissing:
+        f = None
+    if f is not None:
+        return f
+    pred = ROLES.get(name)
+    if pred is None:
+        raise AnchorMissing("function `%s` not found" % name)
+    cands = []
+    for g in P.fns.values():
+        if g.kind not in ("Fn", "AssocFn") or g.derived or "::tests::" in g.path:
+            continue
+        try:
+            if pred(P, g):
+                cands.append(g)
+        except AnchorMissing:
+            raise
+        except Exception:
+            continue
+    if len(cands) == 1:
+        return cands[0]
+    raise AnchorMissing("function `%s` not found by name, and %d functions have its role%s"
+                        % (name, len(cands), (" " + str(sorted(short(c.path) for c in cands))) if cands else ""))
+
+
+# ----------------------------------------------------------------------------------------- provenance with mutation
+MUTATORS = {"push", "push_back", "push_front", "push_str", "insert", "extend", "extend_from_slice", "append", "add", "entry",
+            "or_insert", "or_insert_with", "write_str", "write_fmt", "resize", "fill", "set", "replace", "get_or_insert_with"}
+
+
+class MProv(Prov):
+    """Prov that also lets a local derive from what is *put into it* through a mutating method (`v.push(x)`,
+    `v.extend(it)`, `set.insert(k)`): building a collection step by step instead of by one expression must not lose the
+    dependency, and "atom absent" stays positive evidence."""
+
+    def _scan(self, node):
+        Prov._scan(self, node)
+        for n in subnodes(node) if isinstance(node, dict) else []:
+            if n.get("k") == "MethodCall" and n.get("method") in MUTATORS and n.get("args"):
+                base = n["recv"]
+                while base.get("k") in ("AddrOf", "Unary", "Field", "Index", "DropTemps"):
+                    base = base["e"]
+                if base.get("k") == "Path" and "local" in base:
+                    for a in n["args"]:
+                        self.src.setdefault(base["local"], []).append((a, frozenset()))
+
+
+# ------------------------------------------------------------------------------------------ abstract kind evaluation
+class TooComplex(Exception):
+    pass
+
+
+def V(name):
+    return ("v", name)
+
+
+B_TRUE, B_FALSE, UNIT = ("b", True), ("b", False), ("u",)
+
+
+class KindEval:
+    """Evaluate function bodies over *kinds*: enum values are known up to their variant (`("v", name)`), booleans and string
+    literals exactly, tuples element-wise, everything else is unknown (None).  Control flow is followed exactly where the
+    scrutinee / condition is known and forked where it is not, so the result of `run` is the set of abstract paths with, per
+    path, the ordered *events* met (calls, diagnostic constructions, assumptions made at unknown conditions) and the returned
+    value.  `match`, `if let`, `let else`, `matches!`, early `return`, labelled blocks, `?`, loops (0 or 1 iteration), closures
+    passed to adaptors (0 or 1 call) and calls of non-recursive workspace helpers (entered) are all just control flow here — a
+    table read off the paths does not depend on which of these spellings the code uses.
+    Over-approximation: every concrete execution is represented by some path; a path may be infeasible."""
+
+    MAX_STEPS = 400000
+    MAX_STATES = 6000
+
+    def __init__(self, P, want=None, enter=None, seeds=(), force=None):
+        self.P = P
+        self.force = force or {}       # id(expression node) -> abstract value it is assumed to have
+        self.want = want or (lambda ev: True)
+        self.enter = enter
+        self.seeds = list(seeds)       # [(type prefix, abstract value)] for unknown expressions of that type
+        self.node = {}                 # id -> (node, Fn) for the events
+        self.unit_variants = set()     # names of payload-free variants met as expressions
+        self.stack = []
+        self.steps = 0
+        self._reach = {}
+
+    # ---- public
+    def run(self, fn, params=None, by_local=None):
+        """-> [(value, events, node that produced the value)] over all paths that return normally (panicking paths are dropped)"""
+        env = dict(by_local or {})
+        for i, v in (params or {}).items():
+            p = fn.params[i]
+            if p.get("k") == "Binding":
+                env[p["local"]] = v
+        res = []
+        for o in self._body(fn, env, ()):
+            if o[0] in ("ok", "ret"):
+                res.append((o[1], o[4], o[2]))
+        return _dedupe_res(res)
+
+    def run_expr(self, fn, expr, by_local=None):
+        """the values one expression of `fn` can take -> [(value, events, node)]"""
+        self.stack.append(fn)
+        try:
+            outs = self.ev(expr, dict(by_local or {}), ())
+        finally:
+            self.stack.pop()
+        return _dedupe_res([(o[1], o[4], o[2]) for o in outs if o[0] == "ok"])
+
+    def event_node(self, ev):
+        return self.node[ev[2]]
+
+    # ---- machinery
+    def _body(self, fn, env, evs):
+        self.stack.append(fn)
+        try:
+            return self.ev(fn.body, env, evs)
+        finally:
+            self.stack.pop()
+
+    def _emit(self, evs, kind, name, node, extra=None):
+        ev = (kind, name, id(node), extra)
+        if not self.want(ev):
+            return evs
+        self.node[id(node)] = (node, self.stack[-1])
+        return evs + (ev,)
+
+    def _seed(self, n):
+        t = n.get("t")
+        if not t:
+            return None
+        t = peel_ty(t)
+        while t.startswith(("graphql_type_system::node::Node<", "alloc::boxed::Box<", "alloc::borrow::Cow<")):
+            t = peel_ty(t[t.index("<") + 1:])
+        for prefix, val in self.seeds:
+            if t == prefix or t.startswith(prefix + "<"):
+                return val
+        return None
+
+    def ev(self, n, env, evs):
+        """-> [(status, value, src node, env, events, label)]; status: ok | ret | brk | cont | div"""
+        self.steps += 1
+        if self.steps > self.MAX_STEPS:
+            raise TooComplex("more than %d evaluation steps" % self.MAX_STEPS)
+        if self.force and id(n) in self.force:
+            return [("ok", self.force[id(n)], n, env, evs, None)]
+        m = getattr(self, "_" + str(n.get("k")), None)
+        outs = m(n, env, evs) if m else self._generic(n, env, evs)
+        if self.seeds:
+            seeded = None
+            for i, o in enumerate(outs):
+                if o[0] == "ok" and o[1] is None:
+                    if seeded is None:
+                        seeded = self._seed(n) or False
+                    if seeded:
+                        outs[i] = ("ok", seeded, o[2], o[3], o[4], None)
+        if len(outs) > 1:
+            outs = _dedupe(outs)
+            if len(outs) > self.MAX_STATES:
+                raise TooComplex("more than %d abstract states" % self.MAX_STATES)
+        return outs
+
+    def _seq(self, nodes, env, evs):
+        """evaluate expressions in order -> (normal [(values, env, evs)], abnormal outs)"""
+        states, abn = [((), env, evs)], []
+        for x in nodes:
+            nxt = []
+            for vals, e, v in states:
+                for o in (self._closure_arg(x, e, v) if x.get("k") == "Closure" else self.ev(x, e, v)):
+                    if o[0] == "ok":
+                        nxt.append((vals + (o[1],), o[3], o[4]))
+                    else:
+                        abn.append(o)
+            states = _dedupe_states(nxt)
+            if len(states) > self.MAX_STATES:
+                raise TooComplex("more than %d abstract states" % self.MAX_STATES)
+        return states, abn
+
+    def _generic(self, n, env, evs):
+        kids = [c for c in _children(n)]
+        states, abn = self._seq(kids, env, evs)
+        return [("ok", None, n, e, v, None) for _, e, v in states] + abn
+
+    # ---- leaves
+    def _Lit(self, n, env, evs):
+        v = n.get("v")
+        if n.get("lk") == "bool":
+            return [("ok", ("b", bool(v)), n, env, evs, None)]
+        if n.get("lk") == "str":
+            return [("ok", ("s", v), n, env, evs, None)]
+        return [("ok", None, n, env, evs, None)]
+
+    def _Path(self, n, env, evs):
+        if "local" in n:
+            return [("ok", env.get(n["local"]), n, env, evs, None)]
+        if "Ctor(Variant" in n.get("dk", "") and "Const" in n.get("dk", ""):
+            d = norm(n.get("ctor_of") or n.get("def") or "")
+            if d.startswith(ERR + "::"):
+                evs = self._emit(evs, "ctor", d, n)
+            self.unit_variants.add(d.split("::")[-1])
+            return [("ok", V(d.split("::")[-1]), n, env, evs, None)]
+        return [("ok", None, n, env, evs, None)]
+
+    def _pass(self, n, env, evs):
+        return self.ev(n["e"], env, evs)
+
+    _AddrOf = _DropTemps = _Use = _Cast = _Type = _pass
+
+    def _Unary(self, n, env, evs):
+        outs = []
+        for o in self.ev(n["e"], env, evs):
+            if o[0] != "ok":
+                outs.append(o)
+            elif n.get("op") == "Not":
+                v = o[1]
+                outs.append(("ok", ("b", not v[1]) if v and v[0] == "b" else None, n, o[3], o[4], None))
+            elif n.get("op") == "Deref":
+                outs.append(o)
+            else:
+                outs.append(("ok", None, n, o[3], o[4], None))
+        return outs
+
+    def _Binary(self, n, env, evs):
+        op = n.get("op")
+        outs = []
+        if op in ("&&", "||"):
+            short_val = B_FALSE if op == "&&" else B_TRUE
+            for o in self.ev(n["l"], env, evs):
+                if o[0] != "ok":
+                    outs.append(o)
+                    continue
+                if o[1] == short_val:
+                    outs.append(("ok", short_val, n, o[3], o[4], None))
+                elif o[1] is not None and o[1][0] == "b":
+                    outs.extend(self.ev(n["r"], o[3], o[4]))
+                else:
+                    outs.append(("ok", short_val, n, o[3], self._emit(o[4], "assume", short_val[1], n["l"]), None))
+                    outs.extend(self.ev(n["r"], o[3], self._emit(o[4], "assume", not short_val[1], n["l"])))
+            return outs
+        states, abn = self._seq([n["l"], n["r"]], env, evs)
+        for (a, b), e, v in states:
+            val = None
+            if op in ("==", "!=") and a is not None and b is not None and a[0] == b[0]:
+                if a[0] in ("s", "b"):
+                    val = ("b", (a[1] == b[1]) == (op == "=="))
+                elif a[0] == "v" and (a[1] != b[1] or a[1] in self.unit_variants):
+                    # different variants are different values; the same payload-free variant is the same value
+                    val = ("b", (a[1] == b[1]) == (op == "=="))
+            outs.append(("ok", val, n, e, v, None))
+        return outs + abn
+
+    def _Tup(self, n, env, evs):
+        states, abn = self._seq(n.get("es", []), env, evs)
+        return [("ok", ("t", vals), n, e, v, None) for vals, e, v in states] + abn
+
+    def _Struct(self, n, env, evs):
+        if "rest" in n:   # a pattern reached through a generic walk
+            return [("ok", None, n, env, evs, None)]
+        kids = [f["e"] for f in n.get("fields", []) if isinstance(f, dict) and "e" in f]
+        if isinstance(n.get("base"), dict):
+            kids.append(n["base"])
+        states, abn = self._seq(kids, env, evs)
+        var = norm(n.get("variant") or "")
+        is_variant = bool(var) and var != norm(n.get("adt") or "")
+        names = [f.get("name") for f in n.get("fields", []) if isinstance(f, dict) and "e" in f]
+        outs = []
+        for vals, e, v in states:
+            # an enum value is known by its variant; a plain struct by the known values of its fields
+            val = V(var.split("::")[-1]) if is_variant else ("r", tuple(sorted((nm, x) for nm, x in zip(names, vals) if x is not None)))
+            outs.append(("ok", val, n, e, self._emit(v, "ctor", var or norm(n.get("adt") or ""), n), None))
+        return outs + abn
+
+    def _Field(self, n, env, evs):
+        outs = []
+        for o in self.ev(n["e"], env, evs):
+            if o[0] != "ok":
+                outs.append(o)
+                continue
+            v, val = o[1], None
+            if v is not None and v[0] == "r":
+                val = dict(v[1]).get(n.get("field"))
+            elif v is not None and v[0] == "t" and str(n.get("field", "")).isdigit() and int(n["field"]) < len(v[1]):
+                val = v[1][int(n["field"])]
+            outs.append(("ok", val, n, o[3], o[4], None))
+        return outs
+
+    def _Closure(self, n, env, evs):
+        # a closure *value* that is not an argument of a call: body not run here
+        return [("ok", None, n, env, evs, None)]
+
+    def _closure_arg(self, n, env, evs):
+        """a closure handed to a call may be run by it: not at all, or once (parameters unknown)"""
+        outs = [("ok", None, n, env, evs, None)]
+        e2 = dict(env)
+        for p in n.get("params", []):
+            _, e2 = self._test(p, None, e2)
+        seen = {evs}
+        for o in self.ev(n["body"], e2, evs):
+            if o[0] in ("ok", "ret") and o[4] not in seen:
+                seen.add(o[4])
+                outs.append(("ok", None, n, env, o[4], None))
+        return outs
+
+    # ---- statements and blocks
+    def _BlockExpr(self, n, env, evs):
+        outs = self._Block(n["b"], env, evs)
+        lbl = n.get("label")
+        if lbl:
+            outs = [("ok", o[1], o[2], o[3], o[4], None) if (o[0] == "brk" and o[5] == lbl) else o for o in outs]
+        return outs
+
+    def _Block(self, b, env, evs):
+        states, done = [(env, evs)], []
+        for s in b.get("stmts", []):
+            nxt = []
+            for e, v in states:
+                for o in self.ev(s, e, v):
+                    if o[0] == "ok":
+                        nxt.append((o[3], o[4]))
+                    else:
+                        done.append(o)
+            states = _dedupe_states2(nxt)
+            if len(states) > self.MAX_STATES:
+                raise TooComplex("more than %d abstract states" % self.MAX_STATES)
+        for e, v in states:
+            if "tail" in b:
+                done.extend(self.ev(b["tail"], e, v))
+            else:
+                done.append(("ok", UNIT, b, e, v, None))
+        return done
+
+    def _Stmt(self, n, env, evs):
+        return [(o[0], UNIT if o[0] == "ok" else o[1], o[2], o[3], o[4], o[5]) for o in self.ev(n["e"], env, evs)]
+
+    def _Let(self, n, env, evs):
+        if "init" not in n:
+            return [("ok", UNIT, n, env, evs, None)]
+        outs = []
+        for o in self.ev(n["init"], env, evs):
+            if o[0] != "ok":
+                outs.append(o)
+                continue
+            res, e2 = self._test(n["pat"], o[1], o[3])
+            if "els" not in n or res is True:
+                outs.append(("ok", UNIT, n, e2, o[4], None))
+            elif res is False:
+                outs.extend(self._Block(n["els"], o[3], o[4]))
+            else:
+                outs.append(("ok", UNIT, n, e2, self._emit(o[4], "assume", True, n["init"]), None))
+                outs.extend(self._Block(n["els"], o[3], self._emit(o[4], "assume", False, n["init"])))
+        return outs
+
+    def _LetExpr(self, n, env, evs):
+        outs = []
+        for o in self.ev(n["init"], env, evs):
+            if o[0] != "ok":
+                outs.append(o)
+                continue
+            res, e2 = self._test(n["pat"], o[1], o[3])
+            if res is True:
+                outs.append(("ok", B_TRUE, n, e2, o[4], None))
+            elif res is False:
+                outs.append(("ok", B_FALSE, n, o[3], o[4], None))
+            else:
+                outs.append(("ok", B_TRUE, n, self._refine(n["init"], n["pat"], e2), self._emit(o[4], "assume", True, n), None))
+                outs.append(("ok", B_FALSE, n, o[3], self._emit(o[4], "assume", False, n), None))
+        return outs
+
+    def _If(self, n, env, evs):
+        outs = []
+        for o in self.ev(n["cond"], env, evs):
+            if o[0] != "ok":
+                outs.append(o)
+                continue
+            v = o[1]
+            known = v is not None and v[0] == "b"
+            if not known or v[1]:
+                outs.extend(self.ev(n["then"], o[3], o[4] if known else self._emit(o[4], "assume", True, n["cond"])))
+            if not known or not v[1]:
+                v2 = o[4] if known else self._emit(o[4], "assume", False, n["cond"])
+                if "else" in n:
+                    outs.extend(self.ev(n["else"], o[3], v2))
+                else:
+                    outs.append(("ok", UNIT, n, o[3], v2, None))
+        return outs
+
+    def _Match(self, n, env, evs):
+        outs = []
+        for o in self.ev(n["scrut"], env, evs):
+            if o[0] != "ok":
+                outs.append(o)
+                continue
+            pending = [(o[3], o[4])]
+            for ai, arm in enumerate(n["arms"]):
+                nxt = []
+                for e, v in pending:
+                    res, e2 = self._test(arm["pat"], o[1], e)
+                    if res is False:
+                        nxt.append((e, v))
+                        continue
+                    if res is None:
+                        e2 = self._refine(n["scrut"], arm["pat"], e2)
+                    takes = []
+                    if "guard" in arm:
+                        for g in self.ev(arm["guard"], e2, v):
+                            if g[0] != "ok":
+                                outs.append(g)
+                            elif g[1] == B_TRUE:
+                                takes.append((g[3], g[4], res is True))
+                            elif g[1] == B_FALSE:
+                                nxt.append((e, g[4]))
+                            else:
+                                takes.append((g[3], self._emit(g[4], "assume", True, arm["guard"]), False))
+                                nxt.append((e, self._emit(g[4], "assume", False, arm["guard"])))
+                    else:
+                        takes.append((e2, v, res is True))
+                    for te, tv, sure in takes:
+                        if not sure and res is None:
+                            tv = self._emit(tv, "assume", ai, n["scrut"])
+                            nxt.append((e, v))
+                        outs.extend(self.ev(arm["body"], te, tv))
+                pending = _dedupe_states2(nxt)
+                if not pending:
+                    break
+            # states left in `pending` matched no arm: impossible for an exhaustive match (they stem from unknown tests)
+        return outs
+
+    def _Loop(self, n, env, evs):
+        lbl = n.get("label")
+        outs = []
+        body = n["body"]
+        for o in (self._Block(body, env, evs) if body.get("k") == "Block" else self.ev(body, env, evs)):
+            if o[0] == "brk" and (o[5] is None or o[5] == lbl):
+                outs.append(("ok", o[1] if o[1] is not None else UNIT, n, o[3], o[4], None))
+            elif o[0] == "ok" or (o[0] == "cont" and (o[5] is None or o[5] == lbl)):
+                outs.append(("ok", UNIT, n, o[3], o[4], None))   # one iteration, then the loop is left
+            else:
+                outs.append(o)
+        return outs
+
+    def _Break(self, n, env, evs):
+        if "e" in n:
+            return [("brk", o[1], o[2], o[3], o[4], n.get("label")) if o[0] == "ok" else o for o in self.ev(n["e"], env, evs)]
+        return [("brk", None, n, env, evs, n.get("label"))]
+
+    def _Continue(self, n, env, evs):
+        return [("cont", None, n, env, evs, n.get("label"))]
+
+    def _Ret(self, n, env, evs):
+        if "e" in n:
+            return [("ret", o[1], o[2], o[3], o[4], None) if o[0] == "ok" else o for o in self.ev(n["e"], env, evs)]
+        return [("ret", UNIT, n, env, evs, None)]
+
+    def _Assign(self, n, env, evs):
+        outs = []
+        for o in self.ev(n["r"], env, evs):
+            if o[0] != "ok":
+                outs.append(o)
+                continue
+            e = o[3]
+            l = n["l"]
+            if l.get("k") == "Path" and "local" in l:
+                e = dict(e)
+                if o[1] is None:
+                    e.pop(l["local"], None)
+                else:
+                    e[l["local"]] = o[1]
+            outs.append(("ok", UNIT, n, e, o[4], None))
+        return outs
+
+    def _AssignOp(self, n, env, evs):
+        outs = []
+        for o in self._generic(n, env, evs):
+            l = n["l"]
+            if o[0] == "ok" and l.get("k") == "Path" and "local" in l:
+                e = o[3]
+                if l["local"] in e:
+                    e = dict(e)
+                    e.pop(l["local"], None)
+                o = ("ok", UNIT, n, e, self._emit(o[4], "assignop", l["local"], n), None)
+            outs.append(o)
+        return outs
+
+    # ---- calls
+    def _Call(self, n, env, evs):
+        f = n.get("f", {})
+        c = call_name(n) or ""
+        if "Ctor(" in (f.get("dk") or n.get("callee_dk") or ""):
+            states, abn = self._seq(n["args"], env, evs)
+            d = norm(f.get("ctor_of") or f.get("def") or c)
+            val = V(d.split("::")[-1]) if "Variant" in (f.get("dk") or n.get("callee_dk") or "") else None
+            return [("ok", val, n, e, (self._emit(v, "ctor", d, n) if d.startswith(ERR + "::") else v), None) for _, e, v in states] + abn
+        if c.startswith(("core::panicking::", "std::panicking::", "core::option::unwrap_failed", "core::result::unwrap_failed",
+                         "core::option::expect_failed")):
+            states, abn = self._seq(n["args"], env, evs)
+            return [("div", None, n, e, v, None) for _, e, v in states] + abn
+        return self._invoke(n, c, n["args"], env, evs)
+
+    def _MethodCall(self, n, env, evs):
+        c = call_name(n) or ""
+        return self._invoke(n, c, [n["recv"]] + n["args"], env, evs)
+
+    def _may_enter(self, g):
+        """enter a callee?  never one that is being evaluated (recursion shows as a call event).  The rule's `enter` predicate
+        has the last word (True / False); by default (None) a function is entered if it yields a value (its result may decide a
+        branch) and cannot lead back into a function under evaluation"""
+        if g is None or g.derived or g.kind not in ("Fn", "AssocFn") or len(self.stack) > 4 or any(s.path == g.path for s in self.stack):
+            return False
+        r = self.enter(g) if self.enter is not None else None
+        if r is not None:
+            return bool(r)
+        if (g.sig_output or "()") == "()":
+            return False
+        reach = self._reach.get(g.path)
+        if reach is None:
+            reach = self._reach[g.path] = self.P.reachable([g])
+        return not any(s.path in reach for s in self.stack)
+
+    def _invoke(self, n, c, argnodes, env, evs):
+        states, abn = self._seq(argnodes, env, evs)
+        outs = list(abn)
+        g = self.P.fns.get(c) if c else None
+        for vals, e, v in states:
+            v = self._emit(v, "call", c, n, vals)
+            m = n.get("method")
+            val = None
+            if m in ("is_some", "is_none", "is_ok", "is_err") and vals and vals[0] is not None and vals[0][0] == "v" \
+                    and vals[0][1] in ("Some", "None", "Ok", "Err"):
+                val = ("b", vals[0][1] == {"is_some": "Some", "is_none": "None", "is_ok": "Ok", "is_err": "Err"}[m])
+                outs.append(("ok", val, n, e, v, None))
+                continue
+            if g is not None and self._may_enter(g):
+                v = self._emit(v, "enter", c, n)
+                penv = {}
+                for p, a in zip(g.params, vals):
+                    _, penv = self._test(p, a, penv)
+                for o in self._body(g, penv, v):
+                    if o[0] in ("ok", "ret"):
+                        outs.append(("ok", o[1], o[2], e, o[4], None))
+                    elif o[0] == "div":
+                        outs.append(("div", None, n, e, o[4], None))
+                continue
+            outs.append(("ok", None, n, e, v, None))
+        return outs
+
+    # ---- patterns
+    def _refine(self, scrut, pat, env):
+        """under the assumption that `pat` matched the unknown value of a local, that local has the pattern's variant"""
+        while scrut.get("k") in ("AddrOf", "DropTemps", "Use") or (scrut.get("k") == "Unary" and scrut.get("op") == "Deref"):
+            scrut = scrut["e"]
+        while pat.get("k") in ("Ref", "Deref", "Box"):
+            pat = pat["p"]
+        if scrut.get("k") == "Path" and "local" in scrut and pat.get("k") in ("TupleStruct", "Struct", "PatExpr", "Path"):
+            d = pat.get("ctor_of") or (pat.get("def") if pat.get("dk") == "Variant" or "Variant" in pat.get("dk", "") else None)
+            if d and env.get(scrut["local"]) is None:
+                env = dict(env)
+                env[scrut["local"]] = V(norm(d).split("::")[-1])
+        return env
+
+    def _test(self, pat, v, env):
+        """-> (True | False | None, env with the pattern's bindings)"""
+        k = pat.get("k")
+        if k == "Wild":
+            return True, env
+        if k == "Binding":
+            res = True
+            if "sub" in pat:
+                res, env = self._test(pat["sub"], v, env)
+            if v is not None or pat["local"] in env:
+                env = dict(env)
+                if v is None:
+                    env.pop(pat["local"], None)
+                else:
+                    env[pat["local"]] = v
+            return res, env
+        if k in ("Ref", "Deref", "Box", "Guard"):
+            return self._test(pat["p"], v, env)
+        if k == "Or":
+            unknown = False
+            for p in pat["ps"]:
+                r, e2 = self._test(p, v, env)
+                if r is True:
+                    return True, e2
+                if r is None:
+                    unknown = True
+            return (None if unknown else False), env
+        if k == "Tuple":
+            ps = pat["ps"]
+            vs = v[1] if (v is not None and v[0] == "t" and len(v[1]) == len(ps) and "ddpos" not in pat) else [None] * len(ps)
+            res = True
+            for p, x in zip(ps, vs):
+                r, env = self._test(p, x, env)
+                if r is False:
+                    return False, env
+                if r is None:
+                    res = None
+            return res, env
+        if k in ("TupleStruct", "Struct", "PatExpr", "Path"):
+            if k == "PatExpr" and "lk" in pat:
+                if v is not None and v[0] in ("s", "b") and pat.get("lk") in ("str", "bool"):
+                    return (v[1] == pat.get("v")), env
+                return None, env
+            d = pat.get("ctor_of") or pat.get("def")
+            is_variant = "Variant" in str(pat.get("dk", ""))
+            if k == "PatExpr" and not is_variant:
+                return None, env     # a constant: refutable, value unknown
+            subs = list(pat.get("ps", [])) + [f["p"] for f in pat.get("fields", []) if isinstance(f, dict) and "p" in f]
+            res = True
+            if not is_variant and v is not None and v[0] == "r" and not pat.get("ps"):
+                known = dict(v[1])
+                for f in pat.get("fields", []):
+                    if isinstance(f, dict) and "p" in f:
+                        r, env = self._test(f["p"], known.get(f.get("name")), env)
+                        if r is False:
+                            return False, env
+                        if r is None:
+                            res = None
+                return res, env
+            if is_variant and d:
+                name = norm(d).split("::")[-1]
+                if v is not None and v[0] == "v":
+                    if v[1] != name:
+                        return False, env
+                else:
+                    res = None
+            elif not d:
+                res = None
+            for p in subs:
+                r, env = self._test(p, None, env)
+                if r is not True and res is True:
+                    res = None
+            return res, env
+        return None, env
+
+
+def _children(n):
+    """direct child *expression* nodes in source order (patterns are not expressions)"""
+    out = []
+    for key, v in n.items():
+        if key in ("pat", "params", "ps", "s"):
+            continue
+        if isinstance(v, dict):
+            if "k" in v:
+                out.append(v)
+            else:
+                out.extend(x for x in v.values() if isinstance(x, dict) and "k" in x)
+        elif isinstance(v, list):
+            for x in v:
+                if isinstance(x, dict):
+                    if "k" in x:
+                        out.append(x)
+                    else:
+                        out.extend(y for y in x.values() if isinstance(y, dict) and "k" in y)
+    return out
+
+
+def _envkey(env):
+    return frozenset(env.items()) if env else frozenset()
+
+
+def _dedupe(outs):
+    seen, res = set(), []
+    for o in outs:
+        key = (o[0], o[1], id(o[2]) if o[0] in ("ok", "ret") and o[1] is None else 0, _envkey(o[3]), o[4], o[5])
+        if key not in seen:
+            seen.add(key)
+            res.append(o)
+    return res
+
+
+def _dedupe_states(states):
+    seen, res = set(), []
+    for vals, e, v in states:
+        key = (vals, _envkey(e), v)
+        if key not in seen:
+            seen.add(key)
+            res.append((vals, e, v))
+    return res
+
+
+def _dedupe_states2(states):
+    seen, res = set(), []
+    for e, v in states:
+        key = (_envkey(e), v)
+        if key not in seen:
+            seen.add(key)
+            res.append((e, v))
+    return res
+
+
+def _dedupe_res(res):
+    seen, out = set(), []
+    for val, evs, src in res:
+        if (val, evs, id(src)) not in seen:
+            seen.add((val, evs, id(src)))
+            out.append((val, evs, src))
+    return out
+
+
+def decide(R, rule, key, verdict, ok_msg, bad_msg, und_msg="", loc=None):
+    """three-valued instance: True -> HOLDS, False -> VIOLATED (positive evidence only), None -> UNDECIDED"""
+    if verdict is None:
+        R.undecided(rule, key, und_msg or ("shape not recognised; " + ok_msg), loc=loc)
+    else:
+        R.check(rule, key, bool(verdict), ok_msg, bad_msg, loc=loc)
+    return verdict
+
+
+def anchors_present(P, R, rule, key, fields=(), methods=(), loc=None):
+    """The rule identifies data by the *names* of fields of the AST / type-system types (and of a few of their methods).  If such a
+    name no longer exists the code was renamed, not broken: the instance is UNDECIDED (returns False), never VIOLATED."""
+    from facts import AnchorMissing
+    gone = []
+    for adt, fld in fields:
+        try:
+            names = {n.replace("r#", "") for n in P.adt(adt).fields()}
+        except AnchorMissing:
+            names = set()
+        if fld not in names:
+            gone.append("%s.%s" % (adt.split("::")[-1], fld))
+    for m in methods:
+        if m not in P.by_name:
+            gone.append(m + "()")
+    if gone:
+        R.undecided(rule, key, "kind=anchor-missing: %s no longer exist(s) under that name (renamed); the rule does not decide the new shape" % ", ".join(gone), loc=loc)
+    return not gone
+
+
+def call_sites(fns, path):
+    """[(fn, node index, call node)] of the calls of `path` inside `fns`"""
+    out = []
+    for g in fns:
+        for j, (x, _) in enumerate(g.nodes()):
+            if x.get("k") in ("Call", "MethodCall") and call_name(x) == path:
+                out.append((g, j, x))
+    return out
+
+
+def all_args(c):
+    return ([c["recv"]] if c.get("k") == "MethodCall" else []) + c["args"]
+
+
+SINKS = {"push", "push_back", "push_front", "extend", "insert", "append", "extend_one", "push_within_capacity"}
+_CARRIER_CALLS = ("core::option::Option::Some", "core::result::Result::Err", "core::result::Result::Ok", "alloc::boxed::",
+                  "alloc::intrinsics::", "core::convert::", "alloc::vec::", "core::iter::", "alloc::slice::")
+
+
+def diag_flow(P, scope, f, i, _seen=None):
+    """What becomes of the value of expression nodes()[i] of `f` (a diagnostic, or something that carries one)?
+       ("sink", n)   it reaches a collection insert (`push`/`extend`/..) — directly, as the value a closure yields to an adaptor chain
+                     that is inserted, or by being returned to callers that all insert it (n = number of such insert sites)
+       ("dropped", why)  positive evidence that it is discarded (expression statement, `let _`, a binding that is never used)
+       (None, why)   the flow is not recognised"""
+    _seen = _seen or set()
+    acc = f.nodes()
+    cur, ci = acc[i][0], i
+    while True:
+        pi = acc[ci][1]
+        if pi < 0:
+            return _returned(P, scope, f, _seen)
+        p = acc[pi][0]
+        k = p.get("k")
+        if k == "MethodCall":
+            if p.get("recv") is not cur and p.get("method") in SINKS and any(a is cur for a in p["args"]):
+                return ("sink", 1)
+        elif k == "Call":
+            c = call_name(p) or ""
+            if not ("Ctor(" in (p.get("callee_dk") or "") or c.startswith(_CARRIER_CALLS) or p.get("x") == "vec"):
+                return (None, "passed to %s" % short(c))
+        elif k == "Stmt":
+            return ("dropped", "its value is discarded (expression statement at line %s)" % p.get("s", ["?"])[0])
+        elif k == "Let":
+            if p.get("init") is not cur:
+                return (None, "let-else")
+            binds = [b for b in subnodes(p["pat"]) if b.get("k") == "Binding"]
+            if not binds:
+                return ("dropped", "bound to a pattern without bindings (line %s)" % p.get("s", ["?"])[0])
+            uses = [j for j, (x, _) in enumerate(acc) if x.get("k") == "Path" and x.get("local") in {b["local"] for b in binds}]
+            if not uses:
+                return ("dropped", "bound to `%s`, which is never used" % binds[0].get("name"))
+            res = [diag_flow(P, scope, f, j, _seen) for j in uses]
+            if any(r[0] == "sink" for r in res):
+                return ("sink", sum(r[1] for r in res if r[0] == "sink"))
+            return (None, "bound to `%s`" % binds[0].get("name"))
+        elif k == "Ret":
+            return _returned(P, scope, f, _seen)
+        elif k == "Arm":
+            if p.get("body") is not cur:
+                return (None, "used in a guard")
+        elif k == "Match":
+            if p.get("scrut") is cur:
+                return (None, "matched on")
+        elif k == "If":
+            if p.get("cond") is cur:
+                return (None, "used as a condition")
+        elif k in ("Break", "Assign", "AssignOp", "Loop", "Binary", "Index"):
+            return (None, "flows through `%s`" % k)
+        elif k == "Closure":
+            # the value the closure yields: carried by the adaptor the closure is handed to
+            pass
+        cur, ci = p, pi
+
+
+def _returned(P, scope, f, seen):
+    if f.path in seen:
+        return (None, "recursive builder")
+    sites = call_sites(scope, f.path)
+    if not sites:
+        return (None, "returned from %s, which nothing in the checker calls" % short(f.path))
+    n = 0
+    for g, j, x in sites:
+        r = diag_flow(P, scope, g, j, seen | {f.path})
+        if r[0] != "sink":
+            return (r[0], "%s (returned from %s to %s)" % (r[1], short(f.path), short(g.path)))
+        n += r[1]
+    return ("sink", n)
+
+
+def is_builder(f):
+    """a function whose *result* is a diagnostic: each call of it is one application of the rule it reports"""
+    return (f.sig_output or "").replace(" ", "").startswith((CK + "error::CheckError", "core::option::Option<" + CK + "error::CheckError"))
+
+
+def site_weight(P, scope, f, _seen=()):
+    """how many rule applications one construction site inside `f` stands for: 1, or — inside a diagnostic builder — the number of
+    call sites of the builder (transitively)"""
+    if not is_builder(f) or f.path in _seen:
+        return 1
+    return sum(site_weight(P, scope, g, _seen + (f.path,)) for g, _, _ in call_sites(scope, f.path))
+
+
+def origin(P, scope, f, expr, hit, depth=6, _seen=None, roots=()):
+    """Does `expr` (in `f`) derive from an atom satisfying `hit`, following parameters to the arguments of the callers and fields of
+    checker-internal structs to the places that fill them?  True | False (every origin resolved, none hits: positive evidence) | None.
+    The parameters of the functions in `roots` (the entry points of the scope) are origins themselves."""
+    _seen = _seen if _seen is not None else set()
+    pv = MProv(f)
+    atoms = pv.deep_atoms(expr)
+    if any(hit(a) for a in atoms):
+        return True
+    if depth <= 0:
+        return None
+    unresolved = False
+    for a in atoms:
+        if a[0] == "param":
+            idx = [i for i, p in enumerate(f.params) if p.get("k") == "Binding" and pv.params.get(p["local"]) == a[1]]
+            if not idx or (f.path, idx[0]) in _seen:
+                continue
+            _seen.add((f.path, idx[0]))
+            if f.path in roots:
+                continue
+            sites = call_sites(scope, f.path)
+            if not sites:
+                unresolved = True
+            for g, _, c in sites:
+                args = all_args(c)
+                if idx[0] >= len(args):
+                    unresolved = True
+                    continue
+                r = origin(P, scope, g, args[idx[0]], hit, depth - 1, _seen, roots)
+                if r:
+                    return True
+                if r is None:
+                    unresolved = True
+        elif a[0] == "field" and (a[1] or "").startswith(CK):
+            if ("field", a[1], a[2]) in _seen:
+                continue
+            _seen.add(("field", a[1], a[2]))
+            fills = []
+            for g in scope:
+                for x in g.walk():
+                    if x.get("k") == "Struct" and "rest" not in x and norm(x.get("adt") or "") == a[1]:
+                        for fld in x.get("fields", []):
+                            if isinstance(fld, dict) and fld.get("name") == a[2] and "e" in fld:
+                                fills.append((g, fld["e"]))
+                        if isinstance(x.get("base"), dict):
+                            fills.append((g, x["base"]))
+            if not fills:
+                unresolved = True
+            for g, e in fills:
+                r = origin(P, scope, g, e, hit, depth - 1, _seen, roots)
+                if r:
+                    return True
+                if r is None:
+                    unresolved = True
+    return None if unresolved else False
+
+
+def guard_exprs(f, i):
+    """the expressions that decide whether nodes()[i] is reached: conditions of enclosing `if`s, scrutinees (and guards) of
+    enclosing arms, initialisers of enclosing let-else blocks — and of the let-else / early-exit `if`s that precede it in an
+    enclosing block (code after `let Some(x) = e else { return }` runs only when e matched)"""
+    out = []
+    acc = f.nodes()
+    for c in enclosing_contexts(f, i):
+        if c[0] in ("if-then", "if-else"):
+            out.append(c[1]["cond"])
+        elif c[0] == "arm" and c[1] is not None:
+            out.append(c[1]["scrut"])
+            if "guard" in c[2]:
+                out.append(c[2]["guard"])
+        elif c[0] == "let-else" and c[1].get("init") is not None:
+            out.append(c[1]["init"])
+    # earlier statements of the enclosing blocks that can leave early
+    child = i
+    p = acc[i][1]
+    while p >= 0:
+        n = acc[p][0]
+        if n.get("k") == "Block":
+            for s in n.get("stmts", []):
+                if _contains_node(s, acc[child][0]):
+                    break
+                if s.get("k") == "Let" and "els" in s and s.get("init") is not None:
+                    out.append(s["init"])
+                elif s.get("k") == "Stmt" and s["e"].get("k") == "If" and any(y.get("k") in ("Ret", "Continue", "Break") for y in subnodes(s["e"])):
+                    out.append(s["e"]["cond"])
+        child = p
+        p = acc[p][1]
+    return out
+
+
+def _contains_node(root, node):
+    return any(x is node for x in subnodes(root))
+
+
+def source_nodes(P, pv, expr, depth=2):
+    """nodes of `expr` and, transitively, of the initialisers of the locals it mentions and of the bodies of the checker
+    functions it calls: everything the value is computed by"""
+    nodes, todo, seen = [], [(expr, pv, depth)], set()
+    while todo:
+        n, v, d = todo.pop()
+        for y in subnodes(n):
+            nodes.append(y)
+            if y.get("k") == "Path" and "local" in y and ("l", y["local"]) not in seen:
+                seen.add(("l", y["local"]))
+                todo.extend((src, v, d) for src, _ in v.src.get(y["local"], []) if src is not None)
+            if d > 0 and y.get("k") in ("Call", "MethodCall"):
+                g = P.fns.get(call_name(y) or "")
+                if g is not None and g.crate == "nitrogql_checker" and not g.derived and ("f", g.path) not in seen:
+                    seen.add(("f", g.path))
+                    todo.append((g.body, MProv(g), d - 1))
+    return nodes
+
+
+def makes(P, node, variant, depth=2):
+    """does the code below `node` build diagnostic `variant`, itself or in a checker function it calls (helper extraction)?"""
+    for x in subnodes(node):
+        if x.get("k") == "Struct" and "rest" not in x and norm(x.get("variant", "")).split("::")[-1] == variant:
+            return True
+        if x.get("k") == "Path" and "Ctor" in x.get("dk", "") and norm(x.get("ctor_of") or "") == ERR + "::" + variant:
+            return True
+        if depth > 0 and x.get("k") in ("Call", "MethodCall"):
+            g = P.fns.get(call_name(x) or "")
+            if g is not None and g.crate == "nitrogql_checker" and not g.derived and makes(P, g.body, variant, depth - 1):
+                return True
+    return False
+
+
+def ev_calls(evs, path):
+    return [e for e in evs if e[0] == "call" and e[1] == path]
+
+
+def ev_ctors(evs, variant):
+    return [e for e in evs if e[0] == "ctor" and e[1] == ERR + "::" + variant]
+
+
+def _param_index(f, pred, default=None):
+    for i, t in enumerate(_sig(f)):
+        if pred(t):
+            return i
+    return default
+
+
 def directive_sites(P, fns):
-    """[(fn, call node, {(adt, field)} of the directives argument, set of location literals)]"""
+    """[(fn, call node, {(adt, field)} of the directives argument, set of location literals, {operation kind: literal} | None,
+    atoms of the directives argument)] for every call of check_directives inside `fns`"""
+    cd = role_fn(P, CK + "common::check_directives")
+    di = _param_index(cd, lambda t: "directive::Directive" in t, 2)
+    li = _param_index(cd, lambda t: t in ("&str", "&'staticstr"), 3)
     out = []
     for f in fns:
         pv = None
         for c in f.walk():
-            if c.get("k") == "Call" and (call_name(c) or "") == CK + "common::check_directives":
-                pv = pv or Prov(f)
-                a = pv.atoms(c["args"][2])
+            if c.get("k") in ("Call", "MethodCall") and (call_name(c) or "") == cd.path:
+                args = all_args(c)
+                if max(di, li) >= len(args):
+                    continue
+                pv = pv or MProv(f)
+                a = pv.atoms(args[di])
                 src = {(x[1], x[2]) for x in a if x[0] == "field" and x[2] == "directives"}
                 if not src:
                     # the list arrives through a parameter: take the union over the callers' arguments (one level)
                     pnames = {x[1] for x in a if x[0] == "param"}
                     idxs = [i for i, p in enumerate(f.params) if p.get("k") == "Binding" and pv.params.get(p.get("local")) in pnames]
-                    for g in fns:
-                        gpv = None
-                        for cc in g.walk():
-                            if cc.get("k") == "Call" and call_name(cc) == f.path:
-                                gpv = gpv or Prov(g)
-                                for i in idxs:
-                                    if i < len(cc["args"]):
-                                        ga = gpv.atoms(cc["args"][i])
-                                        src |= {(x[1], x[2]) for x in ga if x[0] == "field" and x[2] == "directives"}
-                                        a = a | ga
-                loc_arg = c["args"][3]
+                    for g, _, cc in call_sites(fns, f.path):
+                        gpv = MProv(g)
+                        gargs = all_args(cc)
+                        for i in idxs:
+                            if i < len(gargs):
+                                ga = gpv.atoms(gargs[i])
+                                src |= {(x[1], x[2]) for x in ga if x[0] == "field" and x[2] == "directives"}
+                                a = a | ga
+                loc_arg = args[li]
                 lits = set(v for v in str_lits_in(loc_arg))
+                if not lits:
+                    # the location is named first (`let loc = "FIELD"`) or computed by a helper: literals it can evaluate to
+                    lits = {x[1] for x in pv.deep_atoms(loc_arg) if x[0] == "lit" and isinstance(x[1], str)}
                 table = None
                 if loc_arg.get("k") == "Match":
                     table = {}
@@ -87,13 +1160,41 @@ def directive_sites(P, fns):
     return out
 
 
+def _inert(node):
+    """the code performs nothing observable: no call, no construction, no assignment"""
+    return not any(x.get("k") in ("Call", "MethodCall", "Struct", "Assign", "AssignOp", "Ret", "Break", "Continue") and "rest" not in x
+                   for x in subnodes(node))
+
+
+def dispatch_reaches(P, f, adt, variant):
+    """does `f`, given a value of enum `adt` of kind `variant` (every value of that type it handles), call a function that takes
+    that variant's payload?"""
+    fields = [v for v in adt.variants if v["name"] == variant]
+    if not fields or not fields[0]["fields"]:
+        return False
+    payload = norm(fields[0]["fields"][0]["ty"]).split("<")[0].lstrip("&")
+    try:
+        E = KindEval(P, want=lambda ev: ev[0] == "call" and ev[1] in P.fns, seeds=[(adt.path, V(variant))],
+                     enter=lambda g: True if ((g.sig_output or "()") == "()" and _takes(g, adt.path)) else None)
+        paths = E.run(f)
+    except TooComplex:
+        return False
+    return any(P.fns[e[1]].crate == f.crate and _takes(P.fns[e[1]], payload) for _, evs, _ in paths for e in evs)
+
+
 def r03a(P, R):
     scope = checker_scope(P)
     R.count("functions_reachable_from_check_operation_document", len(scope))
     n = field_coverage(P, R, "R03-a", scope, [A + t for t in EXEC_AST], EXEMPT, "the operation checker (reachable from check_operation_document)")
     R.floor("R03-a", "executable AST content fields", n, 28)
-    # every variant of the executable sum types is matched explicitly somewhere in the checker
-    for enum, where in (("selection_set::Selection", None), ("operation::ExecutableDefinition", None), ("value::Value", None)):
+    # every variant of the executable sum types is dispatched explicitly: where the checker dispatches on the kind (a `match` used
+    # as a statement), no kind may fall into an arm that does nothing
+    from facts import AnchorMissing
+    try:
+        css_fn = role_fn(P, CK + "operation_checker::check_selection_set")
+    except AnchorMissing:
+        css_fn = None
+    for enum in ("selection_set::Selection", "operation::ExecutableDefinition", "value::Value"):
         adt = P.adt(A + enum)
         allv = set(adt.variant_names())
         seen = set()
@@ -103,34 +1204,106 @@ def r03a(P, R):
             if not f.path.startswith((CK, "<" + CK)):
                 continue
             for m in matches_on(f, enum):
-                if (m.get("x") or "").endswith("matches") or "matches" in (m.get("x") or ""):
+                if "matches" in (m.get("x") or ""):
                     continue
-                sites += 1
                 v, catch = arm_variants(m)
                 seen |= v
-                if enum != "value::Value":
-                    R.check("R03-a", "variants:%s@%s" % (enum.split("::")[-1], short(f.path)), v == allv and not catch,
-                            "all %d variants handled explicitly" % len(allv),
-                            "%s matches over %s with %s (catch-all=%s): selections of the missing kind are never checked"
-                            % (f.path, enum, sorted(allv - v) or "all variants", catch), loc=f.loc())
+                if enum == "value::Value" or (m.get("t") or "()") != "()":
+                    continue   # a classification (the match yields a value), not the dispatch
+                sites += 1
+                key = "variants:%s@%s" % (enum.split("::")[-1], short(f.path))
+                missing = allv - v
+                if not missing:
+                    R.holds("R03-a", key, "all %d variants handled explicitly" % len(allv), loc=f.loc())
+                    continue
+                fallback = [arm for arm in m["arms"] if arm_variants({"arms": [arm]})[1]]
+                if fallback and all(_inert(arm["body"]) for arm in fallback):
+                    R.violated("R03-a", key, "%s dispatches over %s, but %s fall into a catch-all arm that does nothing: selections of the "
+                               "missing kind are never checked" % (f.path, enum, sorted(missing)), loc=f.loc())
+                else:
+                    # the fallback arm does something: is each remaining kind handed to a function that takes that kind's payload?
+                    handed = {v_ for v_ in missing if dispatch_reaches(P, f, adt, v_)}
+                    if handed == missing:
+                        R.holds("R03-a", key, "%s are passed on by the fallback arm to the functions that check them" % sorted(missing), loc=f.loc())
+                    else:
+                        R.undecided("R03-a", key, "%s are handled by a catch-all arm that does something; not decided what" % sorted(missing - handed), loc=f.loc())
         if enum == "value::Value":
-            # let-else / if-let patterns also count as explicit handling
+            # `if let` / `let else` / `matches!` patterns also count as explicit handling
             for p in scope:
                 f = P.fns[p]
                 if f.path.startswith((CK, "<" + CK)):
                     for x in f.walk():
                         if x.get("k") == "TupleStruct" and norm(x.get("adt", "")) == adt.path:
                             seen.add(norm(x.get("ctor_of", "")).split("::")[-1])
-            R.check("R03-a", "variants:Value", {"Variable", "NullValue", "ListValue", "ObjectValue", "EnumValue"} <= seen,
-                    "structural value kinds are matched explicitly", "the checker never matches Value::%s explicitly"
-                    % sorted({"Variable", "NullValue", "ListValue", "ObjectValue", "EnumValue"} - seen))
-        R.floor("R03-a", "matches over " + enum.split("::")[-1], sites, 1)
+            need = {"Variable", "NullValue", "ListValue", "ObjectValue", "EnumValue"}
+            R.check("R03-a", "variants:Value", need <= seen,
+                    "structural value kinds are matched explicitly", "no pattern in the checker mentions Value::%s: that kind of value is "
+                    "not told apart from the others" % sorted(need - seen))
+        else:
+            # whatever the spelling of the dispatch: each kind is handed to a function that takes that kind's payload
+            disp = css_fn if enum == "selection_set::Selection" else entry(P)
+            reached = set()
+            if disp is not None:
+                for v_ in sorted(allv):
+                    ok = dispatch_reaches(P, disp, adt, v_)
+                    if ok:
+                        reached.add(v_)
+                    decide(R, "R03-a", "dispatch:%s::%s" % (enum.split("::")[-1], v_), True if ok else None,
+                           "%s hands a %s to a function that takes it" % (short(disp.path), v_), "",
+                           "no path of %s was found that hands a %s on to a function taking it" % (short(disp.path), v_), loc=disp.loc())
+            R.floor("R03-a", "matches over " + enum.split("::")[-1], sites if reached != allv else max(sites, 1), 1)
+
+
+def _stack_params(f, pv=None):
+    """parameters that carry the stack of fragment names being expanded: a collection of strings"""
+    out = []
+    for i, (p, t) in enumerate(zip(f.params, _sig(f))):
+        if p.get("k") == "Binding" and "str" in t and any(c in t for c in ("[", "Vec<", "HashSet<", "BTreeSet<", "IndexSet<", "VecDeque<")) \
+                and "HashMap<" not in t:
+            out.append((i, pv.params.get(p["local"]) if pv else p.get("name")))
+    return out
+
+
+def same_job(f, g):
+    """`g` is a piece split off `f`: a helper without a result that takes the same distinguishing parameter types (for the
+    applicability helper: two type definitions; for the value checker: a value — or the variable it is — and a type)"""
+    if (g.sig_output or "()") != "()" or g.crate != f.crate:
+        return False
+    if _takes(f, T_TYPEDEF) >= 2:
+        return _takes(g, T_TYPEDEF) >= 2
+    if _takes(f, T_VALUE) and _takes(f, T_TYPE):
+        is_var = any(t.rstrip(">").endswith("variable::Variable") for t in _sig(g))
+        return bool(_takes(g, T_TYPE)) and (bool(_takes(g, T_VALUE)) or is_var)
+    return False
+
+
+def core_roles(P):
+    """(core function, index of the enclosing-type parameter, index of the type-condition parameter) — which of the two type
+    parameters is the fragment's condition is read off the callers: the one fed from `.type_condition`"""
+    core = role_fn(P, CK + "operation_checker::check_fragment_spread_core")
+    tds = [i for i, t in enumerate(_sig(core)) if T_TYPEDEF in t]
+    if len(tds) != 2:
+        return core, None, None
+    scope = [P.fns[p] for p in checker_scope(P) if P.fns[p].kind != "Closure"]
+    votes = {}
+    for g, _, c in call_sites(scope, core.path):
+        if g.path == core.path:
+            continue
+        pv = MProv(g)
+        args = all_args(c)
+        for i in tds:
+            if i < len(args) and any(a[0] == "field" and a[2] == "type_condition" for a in pv.deep_atoms(args[i])):
+                votes[i] = votes.get(i, 0) + 1
+    cond = [i for i in tds if votes.get(i)]
+    if len(cond) != 1:
+        return core, None, None
+    return core, [i for i in tds if i != cond[0]][0], cond[0]
 
 
 def r03b(P, R):
     """fragment bodies are validated from the definition (not only when spread)"""
-    cfd = P.fn(CK + "operation_checker::check_fragment_definition")
-    css = P.fn(CK + "operation_checker::check_selection_set")
+    cfd = role_fn(P, CK + "operation_checker::check_fragment_definition")
+    css = role_fn(P, CK + "operation_checker::check_selection_set")
     reach = P.reachable([cfd])
     R.check("R03-b", "fragment-body-reach", css.path in reach,
             "the selection checker is reachable from the fragment-definition arm",
@@ -138,120 +1311,217 @@ def r03b(P, R):
             "spreads it, so `fragment G on Query { nope }` passes check (and generate later trusts the unchecked body)", loc=cfd.loc())
     # every ExecutableDefinition arm of the entry reaches its definition checker
     e = entry(P)
-    ereach = P.callees_of(e)[0]
-    R.check("R03-b", "operation-arm", CK + "operation_checker::check_operation" in ereach and cfd.path in ereach,
-            "both definition kinds are dispatched", "check_operation_document does not dispatch both definition kinds", loc=e.loc())
-    # recursion guard of spreads: a `contains` check on seen_fragments precedes the push of the same name
-    cfs = P.fn(CK + "operation_checker::check_fragment_spread")
-    pv = Prov(cfs)
-    conts = [c for c in cfs.walk() if c.get("k") == "MethodCall" and c["method"] == "contains"]
-    ok = bool(conts) and has_field(pv.atoms(conts[0]["args"][0]), A + "selection_set::FragmentSpread", "fragment_name") and ("param", "seen_fragments") in pv.atoms(conts[0]["recv"])
-    R.check("R03-b", "spread-cycle-guard", ok, "a fragment already on the spread stack is reported (RecursingFragmentSpread) instead of re-entered",
-            "check_fragment_spread has no stack check keyed by the spread's fragment name", loc=cfs.loc())
-    # descent: in the shared helper every path except the non-composite-parent arm reaches check_selection_set for the fragment's
-    # selection set (no applicability shortcut may skip the body)
-    core = P.fn(CK + "operation_checker::check_fragment_spread_core")
-    cnodes = core.nodes()
-    descents = [i for i, (x, _) in enumerate(cnodes) if x.get("k") == "Call" and call_name(x) == css.path]
-    R.floor("R03-b", "check_selection_set calls in check_fragment_spread_core", len(descents), 1)
-    uncond = [i for i in descents if not [c for c in enclosing_contexts(core, i) if c[0] != "closure" and not (c[0] == "arm" and c[1] is not None and c[1].get("src") != "Normal")]]
-    R.check("R03-b", "core-descent-unconditional", bool(uncond), "the body check is the unconditional tail of the helper",
-            "check_fragment_spread_core calls check_selection_set only conditionally", loc=core.loc())
-    for i, (x, _) in enumerate(cnodes):
-        if x.get("k") != "Ret":
+    cop = role_fn(P, CK + "operation_checker::check_operation")
+    ereach = P.reachable([e])
+    R.check("R03-b", "operation-arm", cop.path in ereach and cfd.path in ereach,
+            "both definition kinds are dispatched", "check_operation_document reaches %s: one kind of definition is never checked"
+            % [short(x.path) for x in (cop, cfd) if x.path in ereach], loc=e.loc())
+    # recursion guard of spreads: the report of a cyclic spread is decided by a test of the spread's name against the stack
+    cfs = role_fn(P, CK + "operation_checker::check_fragment_spread")
+    g = inlined(P, cfs)
+    pv = MProv(g)
+    stack = {nm for _, nm in _stack_params(cfs, pv)}
+    sites = [i for i, (x, _) in enumerate(g.nodes()) if x.get("k") == "Struct" and "rest" not in x and norm(x.get("variant", "")).endswith("::RecursingFragmentSpread")]
+    FS = A + "selection_set::FragmentSpread"
+    if not anchors_present(P, R, "R03-b", "spread-cycle-guard", [(FS, "fragment_name")], loc=cfs.loc()):
+        pass
+    elif not sites or not stack:
+        R.undecided("R03-b", "spread-cycle-guard", "no RecursingFragmentSpread report / no stack parameter found in %s" % short(cfs.path), loc=cfs.loc())
+    else:
+        ok = False
+        for i in sites:
+            for ge in guard_exprs(g, i):
+                a = pv.deep_atoms(ge)
+                if any(("param", s) in a for s in stack) and has_field(a, FS, "fragment_name"):
+                    ok = True
+        R.check("R03-b", "spread-cycle-guard", ok, "a fragment already on the spread stack is reported (RecursingFragmentSpread) instead of re-entered",
+                "no condition guarding RecursingFragmentSpread in check_fragment_spread derives from both the stack of open spreads and the "
+                "spread's fragment name: the cycle test is gone", loc=cfs.loc())
+    # descent: for every composite (enclosing type, type condition) pair, every path through the shared helper reaches the
+    # selection checker (no applicability shortcut may skip the body)
+    core, ri, ci = core_roles(P)
+    if ri is None:
+        R.undecided("R03-b", "core-descent", "the enclosing-type / type-condition parameters of %s could not be told apart" % short(core.path), loc=core.loc())
+    else:
+        # a call "descends" if it is the selection checker or can reach it (a wrapper around the call is as good)
+        down = {p for p, g_ in P.fns.items() if p != core.path and g_.kind in ("Fn", "AssocFn") and css.path in P.reachable([g_])} | {css.path}
+        try:
+            for a_ in sorted(COMPOSITE):
+                for b_ in sorted(COMPOSITE):
+                    E = KindEval(P, want=lambda ev: ev[0] == "call" and ev[1] in down, enter=lambda g_: True if same_job(core, g_) else None)
+                    paths = E.run(core, {ri: V(a_), ci: V(b_)})
+                    skipping = [1 for _, evs, _ in paths if not evs]
+                    if not paths:
+                        R.undecided("R03-b", "core-descent:(%s, %s)" % (a_, b_), "no path evaluated", loc=core.loc())
+                        continue
+                    R.check("R03-b", "core-descent:(%s, %s)" % (a_, b_), not skipping,
+                            "every path checks the fragment's selection set", "%s can return before check_selection_set when the enclosing type "
+                            "is a %s and the type condition a %s (%d of %d paths): the selection set of such a fragment is never validated "
+                            "(e.g. `node { ... on Node { nope } }` when both sides are the same interface)"
+                            % (core.path, a_, b_, len(skipping), len(paths)), loc=core.loc())
+        except TooComplex as ex:
+            R.undecided("R03-b", "core-descent", "abstract evaluation of %s gave up: %s" % (short(core.path), ex), loc=core.loc())
+    # the spread's own name is on the stack handed down
+    pvs = MProv(cfs)
+    descents = []
+    for c in cfs.walk():
+        if c.get("k") in ("Call", "MethodCall"):
+            callee = P.fns.get(call_name(c) or "")
+            if callee is not None and callee.path != cfs.path and css.path in P.reachable([callee]):
+                descents.append((c, callee))
+    verdicts = []
+    for c, callee in descents:
+        sp = _stack_params(callee)
+        args = all_args(c)
+        if not sp or sp[0][0] >= len(args):
+            verdicts.append(None)
             continue
-        arms = [c for c in enclosing_contexts(core, i) if c[0] == "arm" and c[1] is not None and c[1].get("src") == "Normal" and c[1]["scrut"].get("k") == "Tup"]
-        kinds = set()
-        if arms:
-            pat = arms[-1][2]["pat"]
-            first = pat["ps"][0] if pat.get("k") == "Tuple" else pat
-            kinds = {norm(q.get("ctor_of") or q.get("def") or "").split("::")[-1] for q in subnodes(first) if q.get("k") in ("TupleStruct", "Path", "Struct")} - {""}
-        ok = bool(kinds) and kinds <= LEAF_OR_INPUT
-        R.check("R03-b", "core-early-return:%s" % ("/".join(sorted(kinds)) or "?"), ok,
-                "early return only for a non-composite parent type (reported elsewhere as SelectionOnInvalidType)",
-                "check_fragment_spread_core returns before check_selection_set on the arm for parent kinds %s: the selection set of such a "
-                "fragment is never validated (e.g. `node { ... on Node { nope } }` when both sides are the same interface)" % sorted(kinds), loc=core.loc())
-    chains = [c for c in cfs.walk() if c.get("k") == "MethodCall" and c["method"] == "chain"]
-    ok = bool(chains) and has_field(pv.atoms(chains[0]["args"][0]), A + "selection_set::FragmentSpread", "fragment_name")
-    R.check("R03-b", "spread-stack-push", ok, "the spread's name is pushed on the stack passed down", "the fragment name is not added to seen_fragments", loc=cfs.loc())
+        a = pvs.deep_atoms(args[sp[0][0]])
+        verdicts.append(has_field(a, FS, "fragment_name"))
+    v = None if (not verdicts or None in verdicts) else all(verdicts)
+    if verdicts and False in verdicts:
+        v = False
+    if anchors_present(P, R, "R03-b", "spread-stack-push", [(FS, "fragment_name")], loc=cfs.loc()):
+        decide(R, "R03-b", "spread-stack-push", v, "the spread's name is on the stack passed down",
+               "the stack check_fragment_spread passes down does not derive from the spread's fragment name: a fragment that spreads itself "
+               "recurses without bound", "no call from %s towards the selection checker carries a stack of names" % short(cfs.path), loc=cfs.loc())
 
 
 def r03c(P, R, only_locations=False):
-    scope = [P.fns[p] for p in checker_scope(P) if p.startswith((CK, "<" + CK))]
+    scope = [P.fns[p] for p in checker_scope(P) if p.startswith((CK, "<" + CK)) and P.fns[p].kind != "Closure"]
+    cd = role_fn(P, CK + "common::check_directives")
     sites = directive_sites(P, scope)
     R.floor("R03-c", "check_directives call sites (operations)", len(sites), 5)
-    covered = set()
+    vi = _param_index(cd, lambda t: "variable::VariablesDefinition" in t, 1)
+    li = _param_index(cd, lambda t: t in ("&str", "&'staticstr"), 3)
+    covered, seen_pos, wrong, unresolved = set(), set(), set(), 0
     for f, c, src, lits, table, atoms in sites:
         srcs = {(a.replace(A, ""), fld) for a, fld in src if a.startswith(A)}
         known = [s for s in srcs if s in EXEC_LOCATIONS]
         key = "dirloc:%s" % short(f.path)
         if not known:
+            unresolved += 1
             R.undecided("R03-c", key, "directives argument has provenance %s" % sorted(srcs), loc=f.loc())
             continue
         for kn in sorted(known):
             want = EXEC_LOCATIONS[kn]
+            seen_pos.add(kn)
+            k2 = "dirloc:%s.%s%s" % (kn[0].split("::")[-1], kn[1], "" if len(known) == 1 else "@" + short(f.path))
+            if not lits:
+                R.undecided("R03-c", k2, "the location passed by %s is not a literal the rule can read" % short(f.path), loc=f.loc())
+                continue
+            direct = set(str_lits_in(all_args(c)[li])) if li < len(all_args(c)) else set()
             if lits == want:
                 covered.add(kn)
-            R.check("R03-c", "dirloc:%s.%s%s" % (kn[0].split("::")[-1], kn[1], "" if len(known) == 1 else "@" + short(f.path)), lits == want,
+            elif not direct and want < lits:
+                # literals gathered through locals / helpers over-approximate what is passed: a superset decides nothing
+                R.undecided("R03-c", k2, "the location passed by %s may be any of %s" % (short(f.path), sorted(lits)), loc=f.loc())
+                continue
+            else:
+                wrong.add(kn)
+            R.check("R03-c", k2, lits == want,
                     "location %s" % sorted(lits),
                     "%s checks `%s.directives` against location %s; the GraphQL spec location for that position is %s"
                     % (f.path, kn[0].split("::")[-1], sorted(lits), sorted(want)), loc=f.loc())
         known = sorted(known)
-        if table is not None:
-            for k, v in table.items():
-                if k in OP_LOCATION:
-                    R.check("R03-c", "dirloc:operation:%s" % k, v == OP_LOCATION[k], "%s -> %s" % (k, v),
-                            "directives of a %s operation are checked against location %s" % (k, v), loc=f.loc())
+        if ("operation::OperationDefinition", "directives") in known:
+            # which literal for which kind of operation: evaluate the location expression per kind
+            args = all_args(c)
+            for k, want in sorted(OP_LOCATION.items()):
+                try:
+                    E = KindEval(P, want=lambda ev: False, seeds=[(A + "operation::OperationType", V(k))])
+                    vals = {v for v, _, _ in E.run_expr(f, args[li])}
+                except TooComplex:
+                    vals = {None}
+                got = sorted(v[1] for v in vals if v is not None and v[0] == "s")
+                decide(R, "R03-c", "dirloc:operation:%s" % k, True if got == [want] and None not in vals else (False if (vals and None not in vals and want not in got) else None),
+                       "%s -> %s" % (k, want), "directives of a %s operation are checked against location %s" % (k, got),
+                       "the location chosen for a %s operation could not be evaluated" % k, loc=f.loc())
         # variables in scope are passed for positions inside an operation
-        if known[0][0] in ("selection_set::Field", "selection_set::FragmentSpread", "selection_set::InlineFragment", "operation::OperationDefinition"):
-            pv = Prov(f)
-            va = pv.atoms(c["args"][1])
-            ok = ("param", "variables") in va or has_field(va, A + "operation::OperationDefinition", "variables_definition")
-            R.check("R03-c", "dirvars:%s" % known[0][0].split("::")[-1], ok, "directive arguments are checked with the operation's variables in scope",
-                    "%s checks directive arguments without the enclosing operation's variables" % f.path, loc=f.loc())
+        inside = [kn for kn in known if kn[0] in ("selection_set::Field", "selection_set::FragmentSpread", "selection_set::InlineFragment",
+                                                 "operation::OperationDefinition")]
+        if inside and anchors_present(P, R, "R03-c", "dirvars:%s" % inside[0][0].split("::")[-1],
+                                      [(A + "operation::OperationDefinition", "variables_definition")], loc=f.loc()):
+            args = all_args(c)
+            v = origin(P, scope, f, args[vi], lambda a: a[0] == "field" and a[1] == A + "operation::OperationDefinition" and a[2] == "variables_definition",
+                       roots=(entry(P).path,)) if vi < len(args) else None
+            decide(R, "R03-c", "dirvars:%s" % inside[0][0].split("::")[-1], v, "directive arguments are checked with the operation's variables in scope",
+                   "%s checks directive arguments with a variables argument that never derives from the enclosing operation's "
+                   "`variables_definition`: `@include(if: $v)` reports an unknown variable" % f.path,
+                   "the variables argument of %s could not be traced to its origin" % short(f.path), loc=f.loc())
     if only_locations:
         return
     for pos, want in sorted(EXEC_LOCATIONS.items()):
-        R.check("R03-c", "dircover:%s.%s" % (pos[0].split("::")[-1], pos[1]), pos in covered,
-                "directives at this position are validated",
-                "directives written on a %s are never passed to check_directives: unknown, misplaced or repeated directives there are accepted"
-                % pos[0].split("::")[-1])
+        key = "dircover:%s.%s" % (pos[0].split("::")[-1], pos[1])
+        if pos in covered:
+            R.holds("R03-c", key, "directives at this position are validated")
+        elif pos in wrong:
+            R.violated("R03-c", key, "directives written on a %s are not validated against their own location %s" % (pos[0].split("::")[-1], sorted(want)))
+        elif pos in seen_pos or unresolved:
+            R.undecided("R03-c", key, "a check_directives call may cover this position, but its arguments were not resolved")
+        else:
+            R.violated("R03-c", key, "directives written on a %s are never passed to check_directives: unknown, misplaced or repeated directives "
+                       "there are accepted" % pos[0].split("::")[-1])
     # check_directives itself: existence, location, repetition, arguments
-    cd = P.fn(CK + "common::check_directives")
-    made = {norm(x.get("variant", "")).split("::")[-1] for x in cd.walk() if x.get("k") == "Struct" and "rest" not in x}
+    g = inlined(P, cd)
+    made = {v for v in ("UnknownDirective", "DirectiveLocationNotAllowed", "RepeatedDirective") if makes(P, cd.body, v)}
     for v in ("UnknownDirective", "DirectiveLocationNotAllowed", "RepeatedDirective"):
         R.check("R03-c", "directive-rule:" + v, v in made, "rule enforced", "check_directives never reports %s" % v, loc=cd.loc())
-    R.check("R03-c", "directive-rule:arguments", CK + "common::check_arguments" in P.callees_of(cd)[0], "directive arguments are checked",
+    ca = role_fn(P, CK + "common::check_arguments")
+    R.check("R03-c", "directive-rule:arguments", ca.path in P.reachable([cd]), "directive arguments are checked",
             "check_directives does not check the directive's arguments", loc=cd.loc())
-    pv = Prov(cd)
-    # location test compares the definition's locations with the current position
-    alls = [c for c in cd.walk() if c.get("k") == "MethodCall" and c["method"] in ("all", "any", "contains")]
-    ok = any(("param", "current_position") in pv.atoms(c) for c in alls)
-    R.check("R03-c", "directive-rule:location-uses-position", ok, "location rule compares against the position passed in",
-            "the location rule does not use `current_position`", loc=cd.loc())
-    # repeatable: RepeatedDirective only when the definition is not repeatable
-    reps = [(i, x) for i, (x, _) in enumerate(cd.nodes()) if x.get("k") == "Struct" and norm(x.get("variant", "")).endswith("RepeatedDirective")]
-    ok = False
-    for i, x in reps:
-        for ctx in enclosing_contexts(cd, i):
-            if ctx[0] == "if-then" and any(a[0] == "field" and a[2] == "repeatable" for a in pv.atoms(ctx[1]["cond"])):
-                ok = True
-    R.check("R03-c", "directive-rule:repeatable", ok, "repetition allowed only for repeatable directives",
-            "RepeatedDirective is not conditional on the definition's `repeatable`", loc=cd.loc())
+    pv = MProv(g)
+    posnames = {pv.params.get(p["local"]) for p, t in zip(cd.params, _sig(cd)) if p.get("k") == "Binding" and t in ("&str", "&'staticstr")}
+
+    def guarded_by(variant, pred):
+        """True: some condition deciding the report satisfies pred; False: conditions exist, none does; None: no site / no condition"""
+        sites_ = [i for i, (x, _) in enumerate(g.nodes()) if x.get("k") == "Struct" and "rest" not in x and norm(x.get("variant", "")).endswith("::" + variant)]
+        conds = [ge for i in sites_ for ge in guard_exprs(g, i)]
+        if not sites_:
+            return None
+        if any(pred(pv.deep_atoms(ge)) for ge in conds):
+            return True
+        return False
+    DD = "graphql_type_system::definitions::DirectiveDefinition"
+    if anchors_present(P, R, "R03-c", "directive-rule:location-uses-position", [(DD, "locations")], loc=cd.loc()):
+        decide(R, "R03-c", "directive-rule:location-uses-position",
+               guarded_by("DirectiveLocationNotAllowed",
+                          lambda a: any(("param", nm) in a for nm in posnames) and any(x[0] == "field" and x[2] == "locations" for x in a)),
+               "location rule compares the definition's locations against the position passed in",
+               "no condition deciding DirectiveLocationNotAllowed derives from both the position passed in and the definition's `locations`",
+               "DirectiveLocationNotAllowed is not built inside check_directives (or its helpers)", loc=cd.loc())
+    if anchors_present(P, R, "R03-c", "directive-rule:repeatable", [(DD, "repeatable")], loc=cd.loc()):
+        decide(R, "R03-c", "directive-rule:repeatable",
+               guarded_by("RepeatedDirective", lambda a: any(x[0] == "field" and x[2] == "repeatable" for x in a)),
+               "repetition allowed only for repeatable directives",
+               "RepeatedDirective is not conditional on the definition's `repeatable`",
+               "RepeatedDirective is not built inside check_directives (or its helpers)", loc=cd.loc())
 
 
 def r03d(P, R):
     """None from inout_kind_of_type must lead to a diagnostic (operation half)"""
-    f = P.fn(CK + "operation_checker::check_variables_definition")
-    none_handling(P, R, "R03-d", f)
+    f = role_fn(P, CK + "operation_checker::check_variables_definition")
+    n = none_handling(P, R, "R03-d", f)
+    if not n:
+        # the lookup moved into a helper of the variable-definition check
+        for h in scope_fns(P, f, 2)[1:]:
+            if h.path.startswith(CK + "operation_checker"):
+                n += none_handling(P, R, "R03-d", h)
+    R.floor("R03-d", "inout_kind_of_type lookups for variable types", n, 1)
+
+
+NONE_KEEPING = ("map", "as_ref", "as_deref", "copied", "cloned", "filter", "and_then", "inspect")
+NONE_COLLAPSING = ("is_some_and", "is_none_or", "unwrap_or", "unwrap_or_default", "map_or", "map_or_else", "unwrap_or_else", "is_some", "is_none",
+                   "unwrap", "expect")
 
 
 def none_handling(P, R, rule, f):
-    pv = Prov(f)
     acc = f.nodes()
     n = 0
+    ik = P.fn(CK + "types::inout_kind_of_type", required=False)
+    ikp = ik.path if ik is not None else CK + "types::inout_kind_of_type"
     for i, (c, _) in enumerate(acc):
-        if c.get("k") == "Call" and (call_name(c) or "") == CK + "types::inout_kind_of_type":
+        if c.get("k") == "Call" and (call_name(c) or "") == ikp:
             n += 1
             # walk up through None-preserving combinators to the consumer
             cur, ci = c, i
@@ -265,23 +1535,30 @@ def none_handling(P, R, rule, f):
                 k = p.get("k")
                 if k == "MethodCall" and p.get("recv") is cur:
                     m = p["method"]
-                    if m in ("map", "as_ref", "copied", "cloned", "filter", "and_then", "inspect"):
+                    if m in NONE_KEEPING:
                         cur, ci = p, pi
                         continue
-                    if m in ("is_some_and", "is_none_or", "unwrap_or", "unwrap_or_default", "map_or", "map_or_else", "unwrap_or_else", "is_some", "is_none", "unwrap", "expect"):
+                    if m in NONE_COLLAPSING:
                         verdict, detail = False, "`.%s(..)` collapses the unknown-type case" % m
                     else:
                         verdict, detail = None, "consumer `%s`" % m
+                    break
+                if k == "Let" and p.get("init") is cur and "els" in p:
+                    # `let Some(kind) = .. else { report }`
+                    if makes(P, p["els"], "UnknownType"):
+                        verdict, detail = True, "let-else reports UnknownType"
+                    elif _inert_diag(P, p["els"]):
+                        verdict, detail = False, "the `else` of the let-else reports nothing"
                     break
                 if k == "Let" and p.get("init") is cur and p["pat"].get("k") == "Binding":
                     lid = p["pat"]["local"]
                     ms = [m for m in f.walk() if m.get("k") == "Match" and m["scrut"].get("k") == "Path" and m["scrut"].get("local") == lid]
                     if ms:
                         cur = ms[0]
-                        verdict, detail = match_handles_none(ms[0])
+                        verdict, detail = match_handles_none(ms[0], P)
                     break
                 if k == "Match" and p.get("scrut") is cur:
-                    verdict, detail = match_handles_none(p)
+                    verdict, detail = match_handles_none(p, P)
                     break
                 if k in ("DropTemps", "Use", "AddrOf"):
                     cur, ci = p, pi
@@ -296,15 +1573,41 @@ def none_handling(P, R, rule, f):
     return n
 
 
-def match_handles_none(m):
+def _inert_diag(P, node):
+    """the code below `node` pushes no diagnostic at all (itself or through a checker helper)"""
+    for x in subnodes(node):
+        if x.get("k") == "Struct" and "rest" not in x and norm(x.get("adt", "")) == ERR:
+            return False
+        if x.get("k") in ("Call", "MethodCall"):
+            g = P.fns.get(call_name(x) or "") if P is not None else None
+            if g is not None and g.crate == "nitrogql_checker":
+                return False
+    return True
+
+
+def match_handles_none(m, P=None):
+    fallback = None
     for arm in m["arms"]:
         v, catch = arm_variants({"arms": [arm]})
         if "None" in v:
-            made = {norm(x.get("variant", "")).split("::")[-1] for x in subnodes(arm["body"]) if x.get("k") == "Struct" and "rest" not in x}
-            if "UnknownType" in made:
+            if (makes(P, arm["body"], "UnknownType") if P is not None else
+                    "UnknownType" in {norm(x.get("variant", "")).split("::")[-1] for x in subnodes(arm["body"]) if x.get("k") == "Struct" and "rest" not in x}):
                 return True, "None arm reports UnknownType"
+            if P is not None and not _inert_diag(P, arm["body"]):
+                return None, "the `None` arm reports something else, or through a helper the rule does not follow"
             return False, "the `None` arm reports nothing"
+        if catch and fallback is None:
+            fallback = arm
+    if fallback is not None and P is not None:
+        if makes(P, fallback["body"], "UnknownType"):
+            return True, "the fallback arm reports UnknownType"
+        if not _inert_diag(P, fallback["body"]):
+            return None, "`None` falls into an arm that reports something else"
+        return False, "`None` falls into an arm that reports nothing"
     return False, "the match has no `None` arm"
+
+
+FINDERS = {"find", "find_map", "rfind", "get", "position", "rposition", "get_key_value", "binary_search", "binary_search_by", "binary_search_by_key"}
 
 
 def r03e(P, R):
@@ -312,33 +1615,55 @@ def r03e(P, R):
     targets = []
     for p in checker_scope(P):
         f = P.fns[p]
+        if f.kind == "Closure":
+            continue
         for i, (x, _) in enumerate(f.nodes()):
             if x.get("k") == "Struct" and "rest" not in x and norm(x.get("variant", "")).split("::")[-1] in ("UnknownArgument", "UnknownField"):
                 targets.append((f, i, x))
     R.floor("R03-e", "unknown-key diagnostics", len(targets), 2)
     for f, i, x in targets:
         vname = norm(x["variant"]).split("::")[-1]
-        guards = [c for c in enclosing_contexts(f, i) if c[0] == "if-then" and c[1]["cond"].get("k") == "Binary" and c[1]["cond"].get("op") in ("<", "!=", ">")]
-        counters = [g[1]["cond"]["l"] for g in guards if g[1]["cond"]["l"].get("k") == "Path" and "local" in g[1]["cond"]["l"]]
+        mutated = {n["l"]["local"] for n in f.walk() if n.get("k") == "AssignOp" and n["l"].get("k") == "Path" and "local" in n["l"]}
+        counters = []
+        for c in enclosing_contexts(f, i):
+            if c[0] == "if-then" and c[1]["cond"].get("k") == "Binary" and c[1]["cond"].get("op") in ("<", "!=", ">", "<=", ">=", "=="):
+                for side in (c[1]["cond"]["l"], c[1]["cond"]["r"]):
+                    if side.get("k") == "Path" and side.get("local") in mutated:
+                        counters.append(side)
         if not counters:
             R.holds("R03-e", "guard:" + vname, "%s is reported without a counting shortcut" % vname, loc=f.loc())
             continue
         lid = counters[0]["local"]
-        incs = [(j, n) for j, (n, _) in enumerate(f.nodes()) if n.get("k") == "AssignOp" and n["l"].get("k") == "Path" and n["l"].get("local") == lid]
-        bad = []
-        for j, n in incs:
-            arms = [c for c in enclosing_contexts(f, j) if c[0] == "arm"]
-            in_some = any("Some" in arm_variants({"arms": [a[2]]})[0] for a in arms)
-            in_none = any("None" in arm_variants({"arms": [a[2]]})[0] for a in arms)
-            if in_none or not in_some:
-                bad.append(n["s"][0])
-        R.check("R03-e", "guard:" + vname, not bad and incs,
-                "the counter `%s` only counts keys that were actually provided (%d increment(s), all in `Some` arms)" % (counters[0].get("name"), len(incs)),
-                "%s: the counter `%s` that guards the %s report is also incremented when a key was NOT provided (line %s): with optional "
-                "keys omitted, an unknown key is not detected" % (f.path, counters[0].get("name"), vname, bad), loc=f.loc())
+        # the key lookups the increments depend on: a find/get/position whose result takes part in a condition around an increment
+        pvf = MProv(f)
+        around = []
+        for j, (n, _) in enumerate(f.nodes()):
+            if n.get("k") == "AssignOp" and n["l"].get("k") == "Path" and n["l"].get("local") == lid:
+                for ge in guard_exprs(f, j):
+                    around.extend(source_nodes(P, pvf, ge, depth=0))
+        lookups = [n for n in f.walk() if n.get("k") == "MethodCall" and n.get("method") in FINDERS and any(n is y for y in around)]
+        verdict, detail = None, "no key lookup (find/get/position) decides the increments of `%s` in %s" % (counters[0].get("name"), short(f.path))
+        if lookups:
+            try:
+                inc = {}
+                for tag in ("None", "Some"):
+                    E = KindEval(P, want=lambda ev: ev[0] == "assignop" and ev[1] == lid, force={id(n): V(tag) for n in lookups})
+                    inc[tag] = any(evs for _, evs, _ in E.run(f))
+                if inc["None"]:
+                    verdict = False
+                elif inc["Some"]:
+                    verdict = True
+                else:
+                    detail = "the counter is not incremented on the path where a key was found"
+            except TooComplex as ex:
+                detail = "abstract evaluation gave up: %s" % ex
+        decide(R, "R03-e", "guard:" + vname, verdict,
+               "the counter `%s` only counts keys that were actually provided" % counters[0].get("name"),
+               "%s: the counter `%s` that guards the %s report is also incremented on a path where the key lookup found nothing: with "
+               "optional keys omitted, an unknown key is not detected" % (f.path, counters[0].get("name"), vname), detail, loc=f.loc())
 
 
-# operation-rule diagnostics and the number of construction sites confirmed on the pinned tree (reference for later change)
+# operation-rule diagnostics and the number of application sites confirmed on the pinned tree (reference for later change)
 OP_RULE_SITES = {
     "UnNamedOperationMustBeSingle": 1, "DuplicateOperationName": 1, "DuplicateFragmentName": 1, "NoRootType": 1,
     "SubscriptionMustHaveExactlyOneRootField": 1, "SelectionOnInvalidType": 1, "MustSpecifySelectionSet": 1, "FieldNotFound": 1,
@@ -350,55 +1675,99 @@ OP_RULE_SITES = {
 
 
 def r03f(P, R):
-    scope = checker_scope(P)
-    counts = {}
-    for p in scope:
-        f = P.fns[p]
+    scope_paths = checker_scope(P)
+    scope = [P.fns[p] for p in scope_paths if P.fns[p].kind != "Closure"]
+    declared = set(P.adt(ERR).variant_names())
+    counts, eff = {}, {}
+    for f in scope:
+        w = None
         for x in f.walk():
+            v = None
             if x.get("k") == "Struct" and "rest" not in x and norm(x.get("adt", "")) == ERR:
-                counts[norm(x["variant"]).split("::")[-1]] = counts.get(norm(x["variant"]).split("::")[-1], 0) + 1
+                v = norm(x["variant"]).split("::")[-1]
             elif x.get("k") == "Path" and norm(x.get("adt", "")) == ERR and x.get("dk", "").startswith("Ctor"):
                 v = norm(x["def"]).split("::")[-1]
+            if v is not None:
+                if w is None:
+                    w = site_weight(P, scope, f)
                 counts[v] = counts.get(v, 0) + 1
+                eff[v] = eff.get(v, 0) + w
     for v, need in sorted(OP_RULE_SITES.items()):
-        got = counts.get(v, 0)
-        R.check("R03-f", "live:" + v, got >= need, "%d construction site(s) reachable from check_operation_document" % got,
-                "diagnostic %s is constructed at %d site(s) reachable from check_operation_document, %d were confirmed on the pinned tree: "
-                "a rule instance was removed or is no longer reachable" % (v, got, need))
+        got, e = counts.get(v, 0), eff.get(v, 0)
+        if v not in declared:
+            R.undecided("R03-f", "live:" + v, "CheckErrorMessage has no variant %s any more (renamed or merged): not decided which variant reports the rule" % v)
+        elif got == 0 or e == 0:
+            R.violated("R03-f", "live:" + v, "diagnostic %s is built by no function reachable from check_operation_document: the validation rule "
+                       "it reports is never applied" % v)
+        elif e < need:
+            R.undecided("R03-f", "live:" + v, "%s is reported from %d place(s); %d were confirmed on the pinned tree (cases may have been merged, "
+                        "or one was removed: not decided here)" % (v, e, need))
+        else:
+            R.holds("R03-f", "live:" + v, "%d construction site(s), %d application(s) reachable from check_operation_document" % (got, e))
     # every diagnostic is pushed to the result vector (constructed and dropped = rule disabled)
     n_push = 0
-    for p in scope:
-        f = P.fns[p]
+    for f in scope:
         if not f.path.startswith(CK):
             continue
+        ordinal = {}
         for i, (x, _) in enumerate(f.nodes()):
             if x.get("k") == "MethodCall" and x["method"] == "with_pos" and (call_name(x) or "").startswith(ERR):
-                # must flow into `result.push(..)` (possibly through with_additional_info)
-                acc = f.nodes()
-                pi, cur = acc[i][1], x
-                ok = False
-                while pi >= 0:
-                    pn = acc[pi][0]
-                    if pn.get("k") == "MethodCall" and pn["method"] == "push" and any(a is cur for a in pn["args"]):
-                        ok = True
-                        break
-                    if pn.get("k") == "MethodCall" and pn.get("recv") is cur and pn["method"] in ("with_additional_info",):
-                        cur, pi = pn, acc[pi][1]
-                        continue
-                    if pn.get("k") in ("Call",) and any(a is cur for a in pn.get("args", [])) and (call_name(pn) or "").endswith(("Option::Some", "Result::Err")):
-                        ok = True
-                        break
-                    break
+                names = sorted({norm(y.get("variant") or y.get("ctor_of") or "").split("::")[-1] for y in subnodes(x["recv"])
+                                if norm(y.get("variant") or y.get("ctor_of") or "").startswith(ERR + "::")}) or ["?"]
+                ordinal[names[0]] = ordinal.get(names[0], 0) + 1
                 n_push += 1
-                if not ok:
-                    R.violated("R03-f", "pushed:%s:%d" % (short(f.path), x["s"][0]), "%s builds a diagnostic that is not pushed to the result" % f.path, loc=f.loc())
-    R.holds("R03-f", "pushed:all", "%d positioned diagnostics, each pushed to the result vector" % n_push)
-    R.floor("R03-f", "positioned diagnostics", n_push, 30)
+                r = diag_flow(P, scope, f, i)
+                key = "pushed:%s:%s#%d" % (short(f.path), names[0], ordinal[names[0]])
+                if r[0] == "dropped":
+                    R.violated("R03-f", key, "%s builds a %s diagnostic that is not pushed to the result: %s" % (f.path, names[0], r[1]), loc=f.loc())
+                elif r[0] is None:
+                    R.undecided("R03-f", key, "where the %s diagnostic built in %s ends up is not recognised (%s)" % (names[0], short(f.path), r[1]), loc=f.loc())
+    R.holds("R03-f", "pushed:all", "%d positioned diagnostics followed to where they end up" % n_push)
+    R.floor("R03-f", "positioned diagnostics", n_push, 25)
 
 
 def r03g(P, R):
     from c18 import gate
     gate(P, R, rule="R03-g")
+
+
+def recursion_args(P, R, rule, fns):
+    """for directly recursive functions with several parameters of one type: every recursive call passes, in position i, something
+    derived from parameter i and from no other same-typed parameter (catches swapped arguments).  Parameters are identified by
+    position (Prov's names), so renaming them changes nothing."""
+    n = 0
+    for f in fns:
+        if f.kind not in ("Fn", "AssocFn"):
+            continue
+        groups = {}
+        for i, t in enumerate(f.sig_inputs):
+            groups.setdefault(t, []).append(i)
+        same = [g for g in groups.values() if len(g) >= 2]
+        if not same:
+            continue
+        calls = [c for c in f.walk() if c.get("k") in ("Call", "MethodCall") and call_name(c) == f.path]
+        if not calls:
+            continue
+        pv = Prov(f)
+        names = [pv.params.get(p["local"]) if p.get("k") == "Binding" else None for p in f.params]
+        for ci, c in enumerate(calls):
+            args = all_args(c)
+            if len(args) != len(f.sig_inputs):
+                continue
+            for g in same:
+                for i in g:
+                    if names[i] is None:
+                        continue
+                    a = {x[1] for x in pv.atoms(args[i]) if x[0] == "param"}
+                    others = {names[j] for j in g if j != i and names[j]}
+                    n += 1
+                    verdict = True if (names[i] in a and not (a & others)) else (False if (names[i] not in a and (a & others)) else None)
+                    decide(R, rule, "recursion:%s#%d:arg%d" % (short(f.path), ci, i), verdict,
+                           "recursive call passes a component of `%s` in position %d" % (names[i], i),
+                           "%s: recursive call #%d passes in position %d (parameter `%s`) a value derived from %s: the arguments "
+                           "of the structural recursion are swapped" % (f.path, ci, i, names[i], sorted(a)),
+                           "position %d of recursive call #%d derives from %s" % (i, ci, sorted(a) or "no parameter"), loc=f.loc())
+    return n
 
 
 def r03h(P, R):
@@ -410,87 +1779,191 @@ def r03h(P, R):
         if f.path not in seen:
             seen.add(f.path)
             uniq.append(f)
-    n = recursion_discipline(P, R, "R03-h", uniq)
+    n = recursion_args(P, R, "R03-h", uniq)
     R.floor("R03-h", "checked recursive argument positions", n, 6)
+
+
+ALL_KINDS = sorted(COMPOSITE | LEAF_OR_INPUT)
+
+
+def verdict_of(v):
+    """the verdict in what the literal typing returns: the first component of `(bool, ..)`, the bool itself, or the one boolean
+    field of a result struct"""
+    if v is not None and v[0] == "t" and v[1]:
+        return v[1][0]
+    if v is not None and v[0] == "b":
+        return v
+    if v is not None and v[0] == "r":
+        bools = [x for _, x in v[1] if x is not None and x[0] == "b"]
+        return bools[0] if len(bools) == 1 else None
+    return None
+
+
+def kind_table(P, f, variant, params=None):
+    """{type kind: True if some path of `f` builds diagnostic `variant` when every value of type TypeDefinition it handles has that
+    kind}; None if the evaluation gave up"""
+    tab = {}
+    try:
+        for k in ALL_KINDS:
+            E = KindEval(P, want=lambda ev: ev[0] == "ctor" and ev[1] == ERR + "::" + variant, seeds=[(T_TYPEDEF[:-1], V(k))])
+            paths = E.run(f, {i: V(k) for i in (params or [])})
+            tab[k] = any(evs for _, evs, _ in paths)
+    except TooComplex:
+        return None
+    return tab
 
 
 def r03i(P, R):
     """kind tables: which type kinds are composite (need/allow a selection set), and the two selection-set rules agree"""
-    d = P.fn("nitrogql_semantics::direct_fields_of_output_type::direct_fields_of_output_type")
-    ms = matches_on(d, "TypeDefinition")
-    R.floor("R03-i", "kind match in direct_fields_of_output_type", len(ms), 1)
-    for m in ms:
-        tab = variant_table(m)
-        some = {k for k, arm in tab.items() if k != "_" and any((call_name(x) or "").endswith("Option::Some") for x in subnodes(arm["body"]))}
-        none = {k for k, arm in tab.items() if k != "_" and not any((call_name(x) or "").endswith("Option::Some") for x in subnodes(arm["body"]))}
-        R.check("R03-i", "composite-kinds", some == COMPOSITE and none == LEAF_OR_INPUT and "_" not in tab,
-                "fields can be selected on exactly Object, Interface and Union",
-                "direct_fields_of_output_type yields fields for %s and none for %s; the composite kinds are %s" % (sorted(some), sorted(none), sorted(COMPOSITE)), loc=d.loc())
-        # __typename meta field on all three
-        for k in COMPOSITE & set(tab):
-            pv = Prov(d)
-            ok = has_call(pv.atoms(tab[k]["body"]), "get_typename_meta_field")
-            R.check("R03-i", "typename:" + k, ok, "__typename is selectable on %s" % k, "%s types do not get the __typename meta field" % k, loc=d.loc())
-    # the two selection-set rules use the same predicate
-    for fname, variant in (("check_selection_set", "SelectionOnInvalidType"), ("check_selection_field", "MustSpecifySelectionSet")):
-        f = P.fn(CK + "operation_checker::" + fname)
-        pv = Prov(f)
-        sites = [(i, x) for i, (x, _) in enumerate(f.nodes()) if x.get("k") == "Struct" and "rest" not in x and norm(x.get("variant", "")).endswith(variant)]
-        R.floor("R03-i", variant + " sites", len(sites), 1)
-        for i, x in sites:
-            guards = []
-            for c in enclosing_contexts(f, i):
-                if c[0] in ("if-then", "if-else"):
-                    guards.append(pv.atoms(c[1]["cond"]))
-                elif c[0] == "let-else":
-                    guards.append(pv.atoms(c[1].get("init")))
-            ok = any(has_call(g, "direct_fields_of_output_type") for g in guards)
-            kinds = any(any(a[0] == "def" and TD in a[1] for a in g) or any(a[0] == "variant" and TD in str(a[1]) for a in g) for g in guards)
-            R.check("R03-i", "selection-predicate:" + variant, ok and not kinds,
-                    "%s is decided by direct_fields_of_output_type (the shared composite-kind predicate)" % variant,
-                    "%s is guarded by an ad-hoc kind test instead of direct_fields_of_output_type: the two selection-set rules can disagree "
-                    "about which kinds are composite (e.g. union-typed fields)" % variant, loc=f.loc())
+    d = role_fn(P, "nitrogql_semantics::direct_fields_of_output_type::direct_fields_of_output_type")
+    gtm = role_fn(P, "nitrogql_semantics::direct_fields_of_output_type::get_typename_meta_field")
+    pvd = MProv(d)
+    some, none, unknown, srcs = set(), set(), set(), {}
+    try:
+        for k in ALL_KINDS:
+            res = KindEval(P, want=lambda ev: False).run(d, {0: V(k)})
+            vals = {v for v, _, _ in res}
+            if vals == {V("Some")}:
+                some.add(k)
+                srcs[k] = [s for _, _, s in res]
+            elif vals == {V("None")}:
+                none.add(k)
+            else:
+                unknown.add(k)
+    except TooComplex:
+        unknown = set(ALL_KINDS)
+    decide(R, "R03-i", "composite-kinds", None if unknown else (some == COMPOSITE and none == LEAF_OR_INPUT),
+           "fields can be selected on exactly Object, Interface and Union",
+           "direct_fields_of_output_type yields fields for %s and none for %s; the composite kinds are %s" % (sorted(some), sorted(none), sorted(COMPOSITE)),
+           "the result of direct_fields_of_output_type for kinds %s could not be evaluated" % sorted(unknown), loc=d.loc())
+    # __typename meta field on all three
+    for k in sorted(COMPOSITE & some):
+        ok = all(has_call(pvd.deep_atoms(s), gtm.path) for s in srcs[k])
+        R.check("R03-i", "typename:" + k, ok, "__typename is selectable on %s" % k,
+                "the field list returned for %s types does not derive from get_typename_meta_field: `__typename` is rejected there" % k, loc=d.loc())
+    # the two selection-set rules use the same notion of "composite" as direct_fields_of_output_type
+    css = role_fn(P, CK + "operation_checker::check_selection_set")
+    csf = role_fn(P, CK + "operation_checker::check_selection_field")
+    for f, variant, want_on in ((css, "SelectionOnInvalidType", LEAF_OR_INPUT), (csf, "MustSpecifySelectionSet", COMPOSITE)):
+        tab = kind_table(P, f, variant, [i for i, t in enumerate(_sig(f)) if T_TYPEDEF in t])
+        key = "selection-predicate:" + variant
+        if not makes(P, f.body, variant):
+            R.undecided("R03-i", key, "%s is not built in %s" % (variant, short(f.path)), loc=f.loc())
+            continue
+        if tab is None or len(set(tab.values())) < 2:
+            # the evaluation does not see the kind test: fall back on what the guard is computed from
+            g = inlined(P, f)
+            pv = MProv(g)
+            sites = [i for i, (x, _) in enumerate(g.nodes()) if x.get("k") == "Struct" and "rest" not in x and norm(x.get("variant", "")).endswith("::" + variant)]
+            shared = any(has_call(pv.deep_atoms(ge), d.path) for i in sites for ge in guard_exprs(g, i))
+            decide(R, "R03-i", key, True if shared else None,
+                   "%s is decided by direct_fields_of_output_type (the shared composite-kind predicate)" % variant, "",
+                   "which type kinds raise %s could not be evaluated, and its guard does not call direct_fields_of_output_type" % variant, loc=f.loc())
+            continue
+        got_on = {k for k, v in tab.items() if v}
+        R.check("R03-i", key, got_on == set(want_on),
+                "%s is raised for exactly the kinds %s — the same split as direct_fields_of_output_type" % (variant, sorted(want_on)),
+                "%s is raised for type kinds %s; fields can be selected on %s, so it must be raised for exactly %s: the two selection-set "
+                "rules disagree about which kinds are composite (e.g. union-typed fields)" % (variant, sorted(got_on), sorted(COMPOSITE), sorted(want_on)), loc=f.loc())
     # fragment targets must be composite
-    cfd = P.fn(CK + "operation_checker::check_fragment_definition")
-    found = False
-    for m in matches_on(cfd, "TypeDefinition"):
-        v, catch = arm_variants(m)
-        found = True
-        R.check("R03-i", "fragment-target-kinds", v == COMPOSITE, "fragment targets: Object, Interface, Union",
-                "check_fragment_definition accepts fragment targets of kinds %s" % sorted(v), loc=cfd.loc())
-    R.check("R03-i", "fragment-target-kinds:present", found, "kind test present", "check_fragment_definition has no kind test", loc=cfd.loc())
-    # is_value_compatible_type_def: output kinds are never inputs
-    iv = P.fn(CK + "common::is_value_compatible_type_def")
-    for m in matches_on(iv, "TypeDefinition"):
-        tab = variant_table(m)
-        R.check("R03-i", "input-literal-kinds", set(tab) - {"_"} == COMPOSITE | LEAF_OR_INPUT and "_" not in tab,
-                "all six kinds handled for literal typing", "literal typing handles kinds %s" % sorted(tab), loc=iv.loc())
-        for k in COMPOSITE & set(tab):
-            same_arm = tab[k]
-            lits = [x.get("v") for x in subnodes(same_arm["body"]) if x.get("k") == "Lit" and x.get("lk") == "bool"]
-            R.check("R03-i", "output-kind-rejects-literal:" + k, lits[:1] == [False], "%s never accepts an input literal" % k,
-                    "a literal is accepted for output kind %s" % k, loc=iv.loc())
+    cfd = role_fn(P, CK + "operation_checker::check_fragment_definition")
+    tab = kind_table(P, cfd, "InvalidFragmentTarget")
+    if not makes(P, cfd.body, "InvalidFragmentTarget"):
+        R.violated("R03-i", "fragment-target-kinds:present", "check_fragment_definition never reports InvalidFragmentTarget: any type kind is "
+                   "accepted as a fragment target", loc=cfd.loc())
+    else:
+        R.holds("R03-i", "fragment-target-kinds:present", "kind test present", loc=cfd.loc())
+        if tab is None or len(set(tab.values())) < 2:
+            R.undecided("R03-i", "fragment-target-kinds", "which type kinds raise InvalidFragmentTarget could not be evaluated", loc=cfd.loc())
+        else:
+            accepted = {k for k, v in tab.items() if not v}
+            R.check("R03-i", "fragment-target-kinds", accepted == COMPOSITE, "fragment targets: Object, Interface, Union",
+                    "check_fragment_definition accepts fragment targets of kinds %s" % sorted(accepted), loc=cfd.loc())
+    # is_value_compatible_type_def: output kinds are never inputs, input kinds can be
+    iv = role_fn(P, CK + "common::is_value_compatible_type_def")
+    ti = [i for i, t in enumerate(_sig(iv)) if T_TYPEDEF in t]
+    for k in ALL_KINDS:
+        try:
+            res = KindEval(P, want=lambda ev: False).run(iv, {ti[0]: V(k)}) if ti else []
+        except TooComplex:
+            res = []
+        firsts = set()
+        for v, _, _ in res:
+            firsts.add(verdict_of(v))
+        if k in COMPOSITE:
+            verdict = None if (not firsts or None in firsts) else firsts == {B_FALSE}
+            if B_TRUE in firsts:
+                verdict = False
+            decide(R, "R03-i", "output-kind-rejects-literal:" + k, verdict, "%s never accepts an input literal" % k,
+                   "a literal is accepted for output kind %s" % k, "the verdict of literal typing for kind %s could not be evaluated" % k, loc=iv.loc())
+        else:
+            verdict = None if not firsts else (False if firsts == {B_FALSE} else True)
+            decide(R, "R03-i", "input-kind-accepts-literal:" + k, verdict, "literals can be typed against %s types" % k,
+                   "literal typing rejects every literal for input kind %s" % k, "the verdict of literal typing for kind %s could not be evaluated" % k, loc=iv.loc())
+
+
+def _int_lit(n):
+    while n.get("k") in ("DropTemps", "Use", "Cast", "AddrOf"):
+        n = n["e"]
+    return n.get("k") == "Lit" and n.get("lk") == "int"
 
 
 def r03j(P, R):
     """document-scoped rules: the lone-anonymous count ranges over all operations; no validation step is skipped on the strength
     of mutable state whose key omits an input of the skipped work"""
-    e = entry(P)
-    pv = Prov(e)
+    e0 = entry(P)
+    e = inlined(P, e0)
+    pv = MProv(e)
     sites = [i for i, (x, _) in enumerate(e.nodes()) if x.get("k") == "Path" and norm(x.get("ctor_of", "")) == ERR + "::UnNamedOperationMustBeSingle"]
     R.floor("R03-j", "UnNamedOperationMustBeSingle sites", len(sites), 1)
     OD = A + "operation::OperationDefinition"
     for i in sites:
-        ctx = enclosing_contexts(e, i)
-        ifs = [c for c in ctx if c[0] == "if-then"]
-        arms = [c for c in ctx if c[0] == "arm" and c[1] is not None]
-        anon = any(has_field(pv.atoms(m["scrut"]), OD, "name") and short(arm["pat"].get("def", "") or arm["pat"].get("ctor_of", "")).endswith("None") for _, m, arm in arms)
-        R.check("R03-j", "lone-anonymous:branch", anon, "reported from the `name == None` arm",
-                "UnNamedOperationMustBeSingle is not raised from the anonymous-operation arm", loc=e.loc())
-        if not ifs:
-            R.violated("R03-j", "lone-anonymous:guard", "UnNamedOperationMustBeSingle is not guarded by a count comparison", loc=e.loc())
+        if not anchors_present(P, R, "R03-j", "lone-anonymous", [(OD, "name"), (A + "operation::OperationDocument", "definitions")], loc=e0.loc()):
             continue
-        cond = ifs[0][1]["cond"]
+        ctx = enclosing_contexts(e, i)
+        # (a) raised for the anonymous operation only
+        verdict = None
+        reads_name = False
+        for c in ctx:
+            if c[0] == "arm" and c[1] is not None and has_field(pv.atoms(c[1]["scrut"]), OD, "name"):
+                reads_name = True
+                v, _ = arm_variants({"arms": [c[2]]})
+                verdict = True if v == {"None"} else (False if v == {"Some"} else verdict)
+            elif c[0] in ("if-then", "if-else") and has_field(pv.atoms(c[1]["cond"]), OD, "name"):
+                reads_name = True
+                cond = c[1]["cond"]
+                pol = None
+                if cond.get("k") == "LetExpr":
+                    v, _ = arm_variants({"arms": [{"pat": cond["pat"]}]})
+                    pol = True if v == {"None"} else (False if v == {"Some"} else None)
+                elif cond.get("k") == "MethodCall" and cond.get("method") in ("is_none", "is_some"):
+                    pol = cond["method"] == "is_none"
+                elif cond.get("k") == "Unary" and cond.get("op") == "Not" and cond["e"].get("k") == "MethodCall" and cond["e"].get("method") in ("is_none", "is_some"):
+                    pol = cond["e"]["method"] == "is_some"
+                if pol is not None:
+                    verdict = pol if c[0] == "if-then" else (not pol)
+        if not reads_name and not any(has_field(pv.atoms(ge), OD, "name") for ge in guard_exprs(e, i)):
+            verdict = False
+        decide(R, "R03-j", "lone-anonymous:branch", verdict, "reported for the operation without a name",
+               "UnNamedOperationMustBeSingle is not raised on the anonymous-operation branch (%s)"
+               % ("no condition around it reads OperationDefinition.name" if not reads_name else "it sits on the branch where the name is present"),
+               "the test on OperationDefinition.name around the report has an unrecognised form", loc=e0.loc())
+        # (b) unless it is the only operation: the condition compares the number of *all* operations with one
+        conds = []
+        todo = [c[1]["cond"] for c in ctx if c[0] in ("if-then", "if-else")]
+        while todo:
+            c = todo.pop(0)
+            while c.get("k") in ("DropTemps", "Use"):
+                c = c["e"]
+            if c.get("k") == "Binary" and c.get("op") == "&&":
+                todo[:0] = [c["l"], c["r"]]
+            elif c.get("k") == "Binary" and c.get("op") in ("!=", "==", ">", "<", ">=", "<=") and (_int_lit(c["l"]) or _int_lit(c["r"])):
+                conds.append(c)     # a comparison of some number with an integer literal
+        conds = [c for c in conds if any(a[0] == "field" and a[1] == A + "operation::OperationDocument" and a[2] == "definitions" for a in pv.atoms(c))]
+        if not conds:
+            R.undecided("R03-j", "lone-anonymous:count", "no condition around the report counts document.definitions", loc=e0.loc())
+            continue
+        cond = conds[0]
         a = pv.atoms(cond)
         # transitive source expressions of the condition (locals followed to their initialisers)
         nodes, todo, seen = [], [cond], set()
@@ -501,17 +1974,25 @@ def r03j(P, R):
                 if y.get("k") == "Path" and "local" in y and y["local"] not in seen:
                     seen.add(y["local"])
                     todo.extend(src for src, _ in pv.src.get(y["local"], []) if src is not None)
-        pats = {norm(y.get("ctor_of") or y.get("def") or "").split("::")[-1] for y in nodes if y.get("k") in ("TupleStruct", "Struct", "Path") and (A + "operation::ExecutableDefinition") in norm(y.get("ctor_of") or y.get("def") or "")}
+        pats = {norm(y.get("ctor_of") or y.get("def") or "").split("::")[-1] for y in nodes if y.get("k") in ("TupleStruct", "Struct", "Path", "PatExpr") and (A + "operation::ExecutableDefinition") in norm(y.get("ctor_of") or y.get("def") or "")}
         op_fields = sorted(x[2] for x in a if x[0] == "field" and x[1] == OD)
         lits = {str(x[1]) for x in a if x[0] == "lit"}
-        ok = (cond.get("k") == "Binary" and cond.get("op") in ("!=", ">") and "1" in lits and has_call(a, "count")
-              and has_field(a, A + "operation::OperationDocument", "definitions") and pats == {"OperationDefinition"} and not op_fields)
-        R.check("R03-j", "lone-anonymous:count", ok,
-                "anonymous operation is reported unless the count of *all* OperationDefinition entries of document.definitions is 1",
-                "the guard of UnNamedOperationMustBeSingle is `%s` over a count that matches %s and reads OperationDefinition fields %s: "
-                "it is not the number of all operations in the document, so an anonymous operation next to other operations can pass"
-                % (cond.get("op"), sorted(pats), op_fields), loc=e.loc())
+        recognised = (cond.get("k") == "Binary" and cond.get("op") in ("!=", ">") and "1" in lits and has_call(a, "count")
+                      and pats == {"OperationDefinition"})
+        if op_fields:
+            verdict = False      # the number compared depends on a property of the operations counted: it is not "all operations"
+        elif "FragmentDefinition" in pats and "OperationDefinition" not in pats:
+            verdict = False
+        else:
+            verdict = True if recognised else None
+        decide(R, "R03-j", "lone-anonymous:count", verdict,
+               "anonymous operation is reported unless the count of *all* OperationDefinition entries of document.definitions is 1",
+               "the guard of UnNamedOperationMustBeSingle is `%s` over a count that matches %s and reads OperationDefinition fields %s: "
+               "it is not the number of all operations in the document, so an anonymous operation next to other operations can pass"
+               % (cond.get("op"), sorted(pats), op_fields),
+               "the way the operations are counted (%s over %s) is not a form this rule reads" % (cond.get("op") or cond.get("k"), sorted(pats)), loc=e0.loc())
     # memoisation / state-dependent skipping
+    e = e0
     scope = [P.fns[p] for p in checker_scope(P) if p.startswith((CK, "<" + CK))]
     const = constant_params(P, e, scope)
     n_guards = 0
@@ -557,13 +2038,16 @@ RULES = [("R03-a", r03a), ("R03-b", r03b), ("R03-c", r03c), ("R03-d", r03d), ("R
 EXPLANATION = (
     "`check` applies every implemented rule at every position it governs, decided for all documents: (R03-a) non-interference — "
     "every content field of the executable AST is read by a function reachable from check_operation_document and the sum types are "
-    "matched exhaustively; (R03-b) fragment bodies reach the selection checker from the definition arm, spreads carry a cycle stack; "
+    "dispatched exhaustively; (R03-b) fragment bodies reach the selection checker from the definition arm, spreads carry a cycle stack, "
+    "and every composite (enclosing type, type condition) pair descends into the fragment body on every path; "
     "(R03-c) every AST position that can carry directives is passed to check_directives with exactly its spec location and with the "
     "operation's variables in scope, and check_directives enforces existence/location/repetition/arguments; (R03-d) an undefined "
     "variable type is reported; (R03-e) unknown-key counters count only provided keys; (R03-f) every operation-rule diagnostic keeps "
-    "its construction sites reachable and pushed; (R03-g) generate runs printers only on a context built from a successful check; "
-    "(R03-h) recursive typing helpers pass each parameter's component in its own position; (R03-i) composite-kind tables and the "
-    "agreement of the two selection-set rules. Not decided: exactness of each rule's predicate on values.")
+    "a construction site reachable and every positioned diagnostic ends up in the result; (R03-g) generate runs printers only on a "
+    "context built from a successful check; (R03-h) recursive typing helpers pass each parameter's component in its own position; "
+    "(R03-i) composite-kind tables, evaluated per type kind, and the agreement of the two selection-set rules. Tables are read by "
+    "abstract evaluation over kinds (any spelling of the control flow); anchors fall back from name to role. Not decided: exactness "
+    "of each rule's predicate on values.")
 ASSUMPTIONS = ["GraphQL spec (October 2021) directive locations and type kinds, transcribed by hand",
                "graphql_type_system::Schema lookups (get_type/get_directive) are exact"]
 
